@@ -1,7 +1,7 @@
 #!/opt/veriftools/pyvenv/bin/python
 """symexec.py — a second, independent semantics of the translated Rust subset: an interpreter over z3 bit-vector
-terms.  With concrete inputs it is an ordinary interpreter (terms are simplified to values as it goes); with symbolic
-inputs it yields one term per output, so two versions of a function can be compared by the solver.
+terms.  With concrete inputs it is an ordinary interpreter (concrete integers are python ints, no solver involved); with
+symbolic inputs it yields one term per output, so two versions of a function can be compared by the solver.
 
 Used by the checks (through `tools/srcdiff.py`) to search for a *failing input* when the proved tie (exttie.py) no
 longer checks: the current source of a function is compared with the pinned source for which the correspondence
@@ -9,46 +9,146 @@ theorems were proved.  `sat` gives a concrete state / seed on which the code's b
 crates and on the Lean model by the caller); `unsat` shows the rewrite is behaviour-preserving (an SMT result, not a
 Lean theorem: it is reported as such); loops whose bounds depend on symbolic data are outside the fragment.
 
+Values
+  I          an integer of a Rust type (`u8 … u128`, `i8 … i128`, `usize`/`isize` = 64 bit, and `w:<ty>` for
+             `Wrapping<ty>`, whose plain operators wrap): a python int when concrete, a z3 bit-vector otherwise
+  int        an integer literal whose type is not known yet
+  list       a tuple or a small array;  BigArr  an array of more than SMALL elements: python values at concrete
+             indices, a z3 array (BitVec 64 -> BitVec w) once it is read or written at a symbolic index
+  View       a reference to (a range of) an array: `&a`, `&mut a[2..6]`, `split_at_mut`, a `&[T]` parameter
+  Ref        a `&mut` reference to a scalar place (local, field, array element)
+  Obj        a struct value
+Two flags are collected per run: `abort` — the real code panics in every build on this input (failed `assert!`, index out
+of range, slice length mismatch, division by zero) and `panic` — it panics in a debug build (`abort`, failed
+`debug_assert!`, overflow of plain `+ - *`, negation, over-long shifts of non-`Wrapping` integers).
+
+Compositional mode (`Interp.abstract`): a call of a function that was already shown equivalent in the two versions can be
+replaced by an application of uninterpreted functions (one per output, the same symbols in both versions) to ALL inputs of
+the callee (every argument, every element / the whole array term of array arguments, every field of `self`, the values
+behind `&mut` parameters); the outputs are the return value, the values behind `&mut` parameters, `self` after the call
+and the callee's two flags.  Soundness: let F be the callee's (common) input/output function.  The comparison proves
+caller_cur[G] = caller_pin[G] for every interpretation G of the symbols, in particular for G = F, and caller_x[F] is the
+real semantics of caller_x because callee_cur = callee_pin = F was established on fully symbolic inputs of exactly the
+shapes recorded (`Interp.abstract[key]` holds the verified input signatures; a call whose signature is not covered is
+executed normally).  A `sat` answer under abstraction proves nothing and is reported as `unknown`.
+
 Run with the tooling interpreter (python3-vt): it needs z3."""
-import sys, os, json, re
+import sys, os, json, re, time
 sys.path.insert(0, os.path.dirname(os.path.abspath(__file__)))
 import z3
 import rsfront
 from rsfront import Unsupported
 
-W = {"u8": 8, "u16": 16, "u32": 32, "u64": 64, "u128": 128, "i8": 8, "i16": 16, "i32": 32, "i64": 64, "i128": 128}
+_BASE = {"u8": 8, "u16": 16, "u32": 32, "u64": 64, "u128": 128, "i8": 8, "i16": 16, "i32": 32, "i64": 64, "i128": 128,
+         "usize": 64, "isize": 64}
+W = dict(_BASE)
+W.update({"w:" + k: v for k, v in _BASE.items()})
+SMALL = 32            # arrays up to this length are python lists
+SIMP_LIMIT = 400      # terms whose (tree) size estimate exceeds this are not simplified operation by operation
+BIG = 1 << 30
+
+def tystr(toks):
+    """type tokens as text (a blank only between two words: `&mut w32`, `impl RngCore`)"""
+    out, prev = [], None
+    for t in toks:
+        if prev is not None and prev[0] in ("id", "num", "life") and t[0] in ("id", "num"):
+            out.append(" ")
+        out.append(t[1]); prev = t
+    return "".join(out)
+
+def base_ty(ty):
+    return ty[2:] if ty.startswith("w:") else ty
+
+def is_wr(ty):
+    return ty.startswith("w:")
 
 class I:
-    """integer value: z3 bit-vector + Rust type"""
-    __slots__ = ("e", "ty")
-    def __init__(self, e, ty):
-        self.e, self.ty = e, ty
+    """integer value: python int (concrete) or z3 bit-vector, + Rust type; `n` estimates the term size, `ub` is an upper
+    bound of the unsigned value (None: unknown)"""
+    __slots__ = ("_e", "v", "ty", "n", "ub")
+    def __init__(self, e, ty, n=None, ub=None):
+        self.ty = ty
+        if isinstance(e, int):
+            self.v, self._e, self.n, self.ub = e & ((1 << W[ty]) - 1), None, 1, None
+        else:
+            self._e = e
+            if z3.is_bv_value(e):
+                self.v, self.n, self.ub = e.as_long(), 1, None
+            else:
+                self.v, self.n, self.ub = None, (n if n is not None else 16), ub
+    @property
+    def e(self):
+        if self._e is None:
+            self._e = z3.BitVecVal(self.v, W[self.ty])
+        return self._e
     @property
     def w(self):
         return W[self.ty]
     @property
     def signed(self):
-        return self.ty.startswith("i")
+        return base_ty(self.ty).startswith("i")
+    def bound(self):
+        if self.v is not None:
+            return self.v
+        return self.ub if self.ub is not None else (1 << W[self.ty]) - 1
 
 def lit(v, ty):
-    return I(z3.BitVecVal(v % (1 << W[ty]), W[ty]), ty)
+    return I(v, ty)
 
 def simp(e):
     return z3.simplify(e)
 
+def mk(e, ty, *ops, ub=None):
+    """a new symbolic integer built from `ops`; simplified while it is small"""
+    n = 1
+    for o in ops:
+        if isinstance(o, I):
+            n += o.n
+    if n <= SIMP_LIMIT:
+        e = z3.simplify(e)
+    elif n > BIG:
+        n = BIG
+    return I(e, ty, n, ub)
+
 def conc(v):
     """python int of a concrete I (else None)"""
+    if isinstance(v, bool):
+        return None
     if isinstance(v, int):
         return v
     if isinstance(v, I):
-        s = simp(v.e)
-        if z3.is_bv_value(s):
-            return s.as_long()
+        if v.v is not None:
+            return v.v
+        if v.n <= SIMP_LIMIT:
+            s = simp(v._e)
+            if z3.is_bv_value(s):
+                v.v = s.as_long()
+                return v.v
     return None
+
+def dag_small(e, limit=1500):
+    """does the term have at most `limit` distinct subterms? (bounded traversal)"""
+    seen, stack = set(), [e]
+    while stack:
+        x = stack.pop()
+        i = x.get_id()
+        if i in seen:
+            continue
+        seen.add(i)
+        if len(seen) > limit:
+            return False
+        stack.extend(x.children())
+    return True
 
 def conc_bool(b):
     if isinstance(b, bool):
         return b
+    if z3.is_true(b):
+        return True
+    if z3.is_false(b):
+        return False
+    if not dag_small(b):
+        return None                 # a condition over big terms is treated as symbolic (simplifying it would cost too much)
     s = simp(b)
     if z3.is_true(s):
         return True
@@ -56,22 +156,148 @@ def conc_bool(b):
         return False
     return None
 
+def zbool(b):
+    return z3.BoolVal(b) if isinstance(b, bool) else b
+
+def sx(v, w):
+    return v - (1 << w) if v >> (w - 1) else v
+
 class Obj:
     def __init__(self, unit, fields):
         self.unit, self.f = unit, fields
     def copy(self):
-        return Obj(self.unit, {k: (list(v) if isinstance(v, list) else v) for k, v in self.f.items()})
+        return Obj(self.unit, {k: own(v) for k, v in self.f.items()})
+
+class BigArr:
+    """array of n elements.  `cache` holds the values known at concrete indices; `bg` is a z3 array term for the rest
+    (None while every index ever used was concrete: then `fill` is the value of the unwritten cells).  `root` is `bg` as
+    it was after the last write at a symbolic index: every later write at a concrete index is in `cache`, `dirty` are the
+    cached cells not yet stored into `bg`."""
+    def __init__(self, n, ety=None, fill=None, bg=None):
+        self.n, self.ety, self.fill, self.bg, self.root = n, ety, fill, bg, bg
+        self.cache, self.dirty = {}, set()
+    def copy(self):
+        b = BigArr(self.n, self.ety, self.fill, self.bg)
+        b.root, b.cache, b.dirty = self.root, dict(self.cache), set(self.dirty)
+        return b
+    def state(self):
+        return (self.ety, self.fill, self.bg, self.root, dict(self.cache), set(self.dirty))
+    def set_state(self, s):
+        self.ety, self.fill, self.bg, self.root = s[0], s[1], s[2], s[3]
+        self.cache, self.dirty = dict(s[4]), set(s[5])
+    def norm(self, x):
+        if self.ety is None:
+            if isinstance(x, I):
+                self.ety = x.ty
+            return x
+        if isinstance(x, bool):
+            return x
+        if isinstance(x, int):
+            return I(x, self.ety)
+        if isinstance(x, I) and x.ty != self.ety and W[x.ty] == W[self.ety]:
+            y = I(x.v if x.v is not None else x._e, self.ety, x.n, x.ub)
+            return y
+        return x
+    def get(self, i):
+        x = self.cache.get(i)
+        if x is None:
+            if self.bg is None:
+                x = self.fill
+                if x is None:
+                    raise Unsupported("read of an uninitialised array element")
+            else:
+                x = mk(z3.Select(self.root, z3.BitVecVal(i, 64)), self.ety) if is_plain_array(self.root) else \
+                    I(z3.Select(self.root, z3.BitVecVal(i, 64)), self.ety, BIG)
+                self.cache[i] = x
+                return x
+        y = self.norm(x)
+        if y is not x:
+            self.cache[i] = y
+            if self.bg is None or i in self.dirty:
+                self.dirty.add(i)
+        return y
+    def set(self, i, v):
+        v = self.norm(v)
+        self.cache[i] = v
+        self.dirty.add(i)
+    def width(self):
+        if self.ety is None:
+            for x in list(self.cache.values()) + [self.fill]:
+                if isinstance(x, I):
+                    self.ety = x.ty
+                    break
+        if self.ety is None:
+            raise Unsupported("array of integers of unknown type used with a symbolic index")
+        return W[self.ety]
+    def term(self):
+        w = self.width()
+        if self.bg is None:
+            f = self.norm(self.fill) if self.fill is not None else I(0, self.ety)
+            self.bg = self.root = z3.K(z3.BitVecSort(64), f.e)
+            self.dirty = set(self.cache)
+        if self.dirty:
+            t = self.bg
+            for i in sorted(self.dirty):
+                x = self.norm(self.cache[i])
+                self.cache[i] = x
+                t = z3.Store(t, z3.BitVecVal(i, 64), x.e)
+            self.bg = t
+            self.dirty = set()
+        return self.bg
+    def get_sym(self, idx):
+        return I(z3.Select(self.term(), idx), self.ety, BIG)
+    def set_sym(self, idx, v):
+        w = self.width()
+        v = self.norm(v)
+        t = z3.Store(self.term(), idx, v.e)
+        self.bg = self.root = t
+        self.cache, self.dirty = {}, set()
+    def set_term(self, t):
+        self.bg = self.root = t
+        self.cache, self.dirty = {}, set()
+
+def is_plain_array(t):
+    """an array variable or constant array (reads of it simplify to small terms)"""
+    return z3.is_const(t) or z3.is_K(t)
+
+class View:
+    """reference to elements off … off+n-1 of a list or BigArr"""
+    __slots__ = ("base", "off", "n")
+    def __init__(self, base, off, n):
+        while isinstance(base, View):
+            off += base.off
+            base = base.base
+        self.base, self.off, self.n = base, off, n
+
+class Ref:
+    """`&mut` reference to a scalar place: (scope dict | Obj | list | BigArr | View, key)"""
+    __slots__ = ("cont", "key")
+    def __init__(self, cont, key):
+        self.cont, self.key = cont, key
+
+def own(v):
+    """an independent copy of an owned value (arrays and structs are values in Rust)"""
+    if isinstance(v, list):
+        return [own(x) for x in v]
+    if isinstance(v, BigArr):
+        return v.copy()
+    if isinstance(v, Obj):
+        return v.copy()
+    return v
 
 class Ret(Exception):
     def __init__(self, v):
         self.v = v
 class Brk(Exception):
     pass
+class Cont(Exception):
+    pass
 
 class Crate:
     """all units (struct + methods) and free functions of one crate directory"""
     def __init__(self, repo, crate, files):
-        self.units, self.fns, self.macros, self.consts = {}, {}, {}, {}
+        self.units, self.fns, self.macros, self.consts, self.types, self.assoc = {}, {}, {}, {}, {}, {}
+        self.files = {}
         parsed = []
         for fn in files:
             p = os.path.join(repo, crate, "src", fn)
@@ -79,143 +305,706 @@ class Crate:
                 continue
             f = rsfront.load(p)
             parsed.append(f)
+            self.files[fn] = f
             self.macros.update(f.macros)
         for f in parsed:
             for n, (tt, et) in f.consts.items():
                 self.consts[n] = (tt, et)
+            for n, tt in f.types.items():
+                self.types[n] = tystr(tt)
             for n, fn_ in f.fns.items():
                 self.fns[n] = fn_
             for sname, fields in f.structs.items():
                 self.units.setdefault(sname, dict(fields=fields, methods={}))
-            for trait, ty, fns, consts in f.impls:
+            for (trait, ty, fns, consts), itypes in zip(f.impls, f.impl_types):
                 u = self.units.setdefault(ty, dict(fields=[], methods={}))
                 for k, v in fns.items():
                     if v.body is not None and (k not in u["methods"] or trait is None):
                         u["methods"][k] = v
+                for k, v in (itypes or {}).items():
+                    self.assoc[(ty, k)] = tystr(v)
 
-MAX_STEPS = 400000
+MAX_STEPS = 6000000
+
+_BaseParser = rsfront.Parser
+
+class Parser2(_BaseParser):
+    """rsfront's parser + `match` over integer / bool literal patterns (alternatives `a | b`, ranges, `_`, a binding), desugared
+    into `{ let m = scrutinee; if m == p1 { e1 } else if … else { en } }`; a match without a catch-all arm ends in
+    `unreachable!()`.  Installed as rsfront.Parser only while symexec parses a body (the translator never sees it)."""
+    _n = [0]
+    def parse_stmt(self):
+        if self.peek() == "match":
+            return ("exprnosemi", self.parse_match())
+        return _BaseParser.parse_stmt(self)
+    def parse_primary(self, nostruct):
+        if self.peek() == "match":
+            return self.parse_match()
+        return _BaseParser.parse_primary(self, nostruct)
+    def parse_match(self):
+        self.eat("match")
+        scrut = self.parse_expr(nostruct=True)
+        if self.peek() != "{":
+            raise Unsupported("match: body")
+        c = rsfront.match_close(self.t, self.i)
+        toks = self.t[self.i + 1:c]
+        self.i = c + 1
+        Parser2._n[0] += 1
+        var = f"__match{Parser2._n[0]}"
+        mv = ("path", [var])
+        arms, i = [], 0
+        while i < len(toks):
+            j, depth = i, 0
+            while not (toks[j][1] == "=>" and depth == 0):
+                if toks[j][0] == "p" and toks[j][1] in rsfront.OPEN:
+                    depth += 1
+                elif toks[j][0] == "p" and toks[j][1] in (")", "]", "}"):
+                    depth -= 1
+                j += 1
+                if j >= len(toks):
+                    raise Unsupported("match: arm")
+            pat = toks[i:j]
+            k = j + 1
+            if toks[k][1] == "{":
+                e_end = rsfront.match_close(toks, k)
+                body = Parser2(toks[k:e_end + 1], self.macros).parse_expr_all()
+                k = e_end + 1
+                if k < len(toks) and toks[k][1] == ",":
+                    k += 1
+            else:
+                e, depth = k, 0
+                while e < len(toks) and not (toks[e][1] == "," and depth == 0):
+                    if toks[e][0] == "p" and toks[e][1] in rsfront.OPEN:
+                        depth += 1
+                    elif toks[e][0] == "p" and toks[e][1] in (")", "]", "}"):
+                        depth -= 1
+                    e += 1
+                body = Parser2(toks[k:e], self.macros).parse_expr_all()
+                k = e + 1
+            arms.append((pat, body))
+            i = k
+        def cond(pat):
+            if any(t[1] == "if" for t in pat):
+                raise Unsupported("match: guard")
+            alts = rsfront.split_top(pat, "|")
+            cs = []
+            for a in alts:
+                txt = [t[1] for t in a]
+                if txt == ["_"]:
+                    return None, None
+                if len(a) == 1 and a[0][0] == "id" and a[0][1] not in ("true", "false") and a[0][1][:1].islower():
+                    return None, a[0][1]
+                if "..=" in txt or ".." in txt:
+                    op = "..=" if "..=" in txt else ".."
+                    q = txt.index(op)
+                    lo, hi = a[:q], a[q + 1:]
+                    if not lo or not hi:
+                        raise Unsupported("match: half-open range pattern")
+                    lo, hi = Parser2(lo, self.macros).parse_expr_all(), Parser2(hi, self.macros).parse_expr_all()
+                    cs.append(("bin", "&&", ("bin", ">=", mv, lo), ("bin", "<=" if op == "..=" else "<", mv, hi)))
+                    continue
+                if not all(t[0] in ("num", "id") or t[1] in ("-", "::") for t in a):
+                    raise Unsupported("match: pattern")
+                cs.append(("bin", "==", mv, Parser2(a, self.macros).parse_expr_all()))
+            r = cs[0]
+            for x in cs[1:]:
+                r = ("bin", "||", r, x)
+            return r, None
+        chain = ([("expr", ("macro", "unreachable", []))], None)
+        closed = False
+        built = []
+        for pat, body in arms:
+            c_, bind = cond(pat)
+            built.append((c_, bind, body))
+        for c_, bind, body in reversed(built):
+            blk = ([("let", ("name", bind), False, None, mv)], body) if bind else ([], body)
+            if c_ is None:
+                chain = blk
+            else:
+                chain = ([], ("if", c_, blk, chain))
+        stmts = [("let", ("name", var), False, None, scrut)] + chain[0]
+        return ("block", stmts, chain[1])
+
+def parse_body2(toks, macros):
+    old = rsfront.Parser
+    rsfront.Parser = Parser2
+    assert old is not Parser2 or True
+    try:
+        return Parser2(toks, macros).parse_block_body()
+    finally:
+        rsfront.Parser = old
 
 class Interp:
-    def __init__(self, crate, symbolic=False):
+    def __init__(self, crate, symbolic=False, deadline=None):
         self.c, self.symbolic = crate, symbolic
         self.steps = 0
+        self.deadline = deadline           # wall-clock limit (time.time() value) of this run
         self.bodies = {}
-        self.wrapping_units = set()        # structs whose integer fields are Wrapping<T>: plain operators wrap there
+        self.wrapping_units = set()        # structs in whose methods plain operators never trap (legacy switch; Wrapping is tracked per value)
         self.pc = []                       # path condition (symbolic branches taken)
-        self.panic = z3.BoolVal(False)     # "a debug-profile build panics": failed assert!/debug_assert!, overflow of plain + - *
+        self.panics = []                   # conditions under which a debug-profile build panics
+        self.aborts = []                   # conditions under which every build panics
+        self.abstract = {}                 # (kind, unit, fn) -> [verified input signatures]: calls replaced by uninterpreted functions
+        self.abstracted = set()            # which of them were actually used
+        self.fresh = 0
+        self.branches = []
 
-    def may_panic(self, cond):
-        """record that the run panics when `cond` (a z3 Bool / python bool) holds on the current path"""
+    @property
+    def panic(self):
+        cs = self.panics + self.aborts
+        return z3.Or(*cs) if cs else z3.BoolVal(False)
+    @property
+    def abort(self):
+        return z3.Or(*self.aborts) if self.aborts else z3.BoolVal(False)
+
+    def _flag(self, lst, cond):
         if isinstance(cond, bool):
             if not cond:
                 return
             cond = z3.BoolVal(True)
         c = z3.And(*(self.pc + [cond])) if self.pc else cond
-        self.panic = z3.simplify(z3.Or(self.panic, c))
+        if lst and lst[-1].eq(c):
+            return
+        lst.append(c)
+
+    def may_panic(self, cond):
+        """record that a debug build panics when `cond` (a z3 Bool / python bool) holds on the current path"""
+        self._flag(self.panics, cond)
+
+    def may_abort(self, cond):
+        """record that every build panics when `cond` holds on the current path"""
+        self._flag(self.aborts, cond)
+
+    def note_branch(self, cond):
+        """symbolic branch conditions (with their path condition), for branch-directed concrete tests"""
+        if len(self.branches) < 400:
+            self.branches.append((list(self.pc), cond))
+
+    def tick(self):
+        self.steps += 1
+        if self.steps > MAX_STEPS:
+            raise Unsupported("step limit")
+        if self.deadline is not None and (self.steps & 1023) == 0 and time.time() > self.deadline:
+            raise Unsupported("time limit")
 
     # ------------------------------------------------------------ types
     def ty(self, s):
         s = s.strip()
         while s.startswith("&"):
             s = s[1:].lstrip()
-            if s.startswith("mut "):
-                s = s[4:]
-        m = re.match(r"^(?:w|Wrapping)<(.+)>$", s)
+            if s.startswith("'"):
+                s = re.sub(r"^'\w+\s*", "", s)
+            if s.startswith("mut ") or s.startswith("mut["):
+                s = s[3:].lstrip()
+        seen = 0
+        while s in self.c.types and seen < 8:
+            s = self.c.types[s].strip(); seen += 1
+        m = re.match(r"^(?:w|Wrapping|core::num::Wrapping|num::Wrapping)<(.+)>$", s)
         if m:
-            return self.ty(m.group(1))
-        if s in W:
+            t = self.ty(m.group(1))
+            return "w:" + t if t in _BASE else ("named", s)
+        if s in _BASE:
             return s
-        if s in ("usize", "isize"):
-            return "usize"
         m = re.match(r"^\[(.+);(.+)\]$", s)
         if m:
             return ("arr", self.ty(m.group(1)), m.group(2).strip())
+        m = re.match(r"^\[(.+)\]$", s)
+        if m:
+            return ("slice", self.ty(m.group(1)))
         return ("named", s)
 
+    def val(self, v):
+        """the value behind a `&mut` scalar reference (auto-deref)"""
+        while isinstance(v, Ref):
+            v = self.ref_get(v)
+        return v
+
     def cast_to(self, v, ty):
-        if ty == "usize":
-            if isinstance(v, int):
-                return v
-            c = conc(v)
-            if c is None:
-                raise Unsupported("symbolic value used as usize")
-            return c
+        v = self.val(v)
         if ty not in W:
             return v
+        if isinstance(v, bool):
+            return I(1 if v else 0, ty)
         if isinstance(v, int):
-            return lit(v, ty)
-        if isinstance(v, bool) or z3.is_bool(v) if not isinstance(v, I) else False:
-            return I(z3.If(v, z3.BitVecVal(1, W[ty]), z3.BitVecVal(0, W[ty])), ty)
+            return I(v, ty)
+        if not isinstance(v, I):
+            if z3.is_bool(v):
+                return I(z3.If(v, z3.BitVecVal(1, W[ty]), z3.BitVecVal(0, W[ty])), ty, 4, 1)
+            return v
         w0, w1 = v.w, W[ty]
+        if v.v is not None:
+            x = sx(v.v, w0) if v.signed else v.v
+            return I(x, ty)
         if w1 == w0:
-            return I(v.e, ty)
+            return I(v._e, ty, v.n, v.ub)
         if w1 < w0:
-            return I(simp(z3.Extract(w1 - 1, 0, v.e)), ty)
-        return I(simp(z3.SignExt(w1 - w0, v.e) if v.signed else z3.ZeroExt(w1 - w0, v.e)), ty)
+            ub = v.ub if (v.ub is not None and v.ub < (1 << w1)) else None
+            return mk(z3.Extract(w1 - 1, 0, v._e), ty, v, ub=ub)
+        if v.signed:
+            return mk(z3.SignExt(w1 - w0, v._e), ty, v)
+        return mk(z3.ZeroExt(w1 - w0, v._e), ty, v, ub=v.bound())
+
+    def pyint(self, v, what="value"):
+        c = conc(self.val(v))
+        if c is None:
+            raise Unsupported(f"symbolic {what}")
+        return c
 
     def coerce2(self, a, b):
-        if isinstance(a, int) and isinstance(b, I):
-            return lit(a, b.ty), b
-        if isinstance(b, int) and isinstance(a, I):
-            return a, lit(b, a.ty)
+        if isinstance(a, int) and not isinstance(a, bool) and isinstance(b, I):
+            return I(a, b.ty), b
+        if isinstance(b, int) and not isinstance(b, bool) and isinstance(a, I):
+            return a, I(b, a.ty)
         return a, b
+
+    # ------------------------------------------------------------ arrays, views, references
+    def a_len(self, c):
+        if isinstance(c, list):
+            return len(c)
+        if isinstance(c, (BigArr, View)):
+            return c.n
+        raise Unsupported("length of a non-array")
+
+    def is_arr(self, c):
+        return isinstance(c, (list, BigArr, View))
+
+    def a_get(self, c, idx):
+        """element `idx` (python int or I) of list / BigArr / View, with the bounds check of the real code"""
+        idx = self.val(idx)
+        n = self.a_len(c)
+        off = 0
+        if isinstance(c, View):
+            off, c = c.off, c.base
+        i = conc(idx)
+        if i is not None:
+            if isinstance(idx, I) and idx.signed:
+                raise Unsupported("signed index")
+            if i >= n:
+                self.may_abort(True)
+                return I(0, self.ety_of(c) or "u32")
+            return c[off + i] if isinstance(c, list) else c.get(off + i)
+        if not isinstance(idx, I):
+            raise Unsupported("index of unknown kind")
+        if not self.symbolic:
+            raise Unsupported("non-concrete index in concrete mode")
+        e = idx.e if idx.w == 64 else z3.ZeroExt(64 - idx.w, idx.e)
+        if idx.bound() >= n:
+            self.may_abort(z3.UGE(e, z3.BitVecVal(n, 64)))
+        if off:
+            e = e + z3.BitVecVal(off, 64)
+        if isinstance(c, list):
+            hi = min(n, idx.bound() + 1)
+            xs = [self.val(c[off + k]) for k in range(hi)]
+            if not xs:
+                return I(0, "u32")
+            r = xs[-1]
+            for k in range(hi - 2, -1, -1):
+                r = self.merge_val(e == z3.BitVecVal(off + k, 64), xs[k], r)
+            return r
+        return c.get_sym(e)
+
+    def a_set(self, c, idx, v):
+        idx = self.val(idx)
+        v = self.val(v)
+        n = self.a_len(c)
+        off = 0
+        if isinstance(c, View):
+            off, c = c.off, c.base
+        i = conc(idx)
+        if i is not None:
+            if i >= n:
+                self.may_abort(True)
+                return
+            if isinstance(c, list):
+                old = c[off + i]
+                if isinstance(old, I) and isinstance(v, (int, I)) and not isinstance(v, bool):
+                    v = self.cast_to(v, old.ty)
+                c[off + i] = own(v)
+            else:
+                c.set(off + i, v)
+            return
+        if not isinstance(idx, I) or not self.symbolic:
+            raise Unsupported("non-concrete index")
+        e = idx.e if idx.w == 64 else z3.ZeroExt(64 - idx.w, idx.e)
+        if idx.bound() >= n:
+            self.may_abort(z3.UGE(e, z3.BitVecVal(n, 64)))
+        if off:
+            e = e + z3.BitVecVal(off, 64)
+        if isinstance(c, list):
+            for k in range(min(n, idx.bound() + 1)):
+                old = c[off + k]
+                vv = self.cast_to(v, old.ty) if isinstance(old, I) and isinstance(v, (int, I)) else v
+                c[off + k] = self.merge_val(e == z3.BitVecVal(off + k, 64), vv, old)
+            return
+        if isinstance(v, int):
+            v = c.norm(v)
+        if not isinstance(v, I):
+            raise Unsupported("non-integer stored at a symbolic index")
+        c.set_sym(e, v)
+
+    def ety_of(self, c):
+        if isinstance(c, View):
+            c = c.base
+        if isinstance(c, BigArr):
+            return c.ety
+        for x in c:
+            if isinstance(x, I):
+                return x.ty
+        return None
+
+    def elems(self, c):
+        """python list of the elements (concrete positions) of an array value"""
+        if isinstance(c, list):
+            return list(c)
+        n = self.a_len(c)
+        if n > 1 << 16:
+            raise Unsupported("array too large")
+        return [self.a_get(c, i) for i in range(n)]
+
+    def new_array(self, xs):
+        """owned array value from a python list of elements"""
+        if len(xs) <= SMALL:
+            return list(xs)
+        b = BigArr(len(xs))
+        for i, x in enumerate(xs):
+            b.set(i, x)
+        return b
+
+    def materialise(self, v):
+        """owned copy of what a View / array denotes"""
+        if isinstance(v, View):
+            if isinstance(v.base, BigArr) and v.off == 0 and v.n == v.base.n:
+                return v.base.copy()
+            if isinstance(v.base, list) and v.off == 0 and v.n == len(v.base):
+                return own(v.base)
+            return self.new_array([own(x) for x in self.elems(v)])
+        return own(v)
+
+    def retype(self, v, ety):
+        if ety not in W:
+            return v
+        if isinstance(v, list):
+            for i, x in enumerate(v):
+                if isinstance(x, (int, I)) and not isinstance(x, bool):
+                    if isinstance(x, int) or (x.ty != ety and W[x.ty] == W[ety]):
+                        v[i] = self.cast_to(x, ety)
+        elif isinstance(v, BigArr):
+            if v.ety is None or W[v.ety] == W[ety]:
+                v.ety = ety
+        return v
+
+    def ref_get(self, r):
+        c, k = r.cont, r.key
+        if isinstance(c, dict):
+            return c[k]
+        if isinstance(c, Obj):
+            return c.f[k]
+        return self.a_get(c, k)
+
+    def ref_set(self, r, v):
+        c, k = r.cont, r.key
+        v = self.val(v)
+        if isinstance(c, dict) or isinstance(c, Obj):
+            d = c if isinstance(c, dict) else c.f
+            old = d.get(k)
+            if isinstance(old, I) and isinstance(v, (int, I)) and not isinstance(v, bool):
+                v = self.cast_to(v, old.ty)
+            d[k] = own(v)
+            return
+        self.a_set(c, k, v)
+
+    def place_ref(self, e, env, frame, mut=True):
+        """the reference `&e` / `&mut e`: a View for arrays, a Ref for scalars (only when mutable), the object for structs"""
+        k = e[0]
+        if k == "paren":
+            return self.place_ref(e[1], env, frame, mut)
+        if k == "deref":
+            return self.ev_(e[1], env, frame)
+        if k == "ref":
+            return self.place_ref(e[2], env, frame, mut and e[1])
+        if k == "path" and len(e[1]) == 1 and e[1][0] != "self":
+            sc = self.look(env, e[1][0])
+            if sc is not None:
+                v = sc[e[1][0]]
+                if isinstance(v, (list, BigArr)):
+                    return View(v, 0, self.a_len(v))
+                if isinstance(v, (View, Ref, Obj)) or not mut:
+                    return v
+                if isinstance(v, (int, I, bool)) or z3.is_expr(v):
+                    return Ref(sc, e[1][0])
+                return v
+        if k == "field":
+            b = self.val(self.place_ref(e[1], env, frame, mut)) if e[1][0] not in ("call", "mcall") else self.ev_(e[1], env, frame)
+            if isinstance(b, Obj) and e[2] in b.f:
+                v = b.f[e[2]]
+                if isinstance(v, (list, BigArr)):
+                    return View(v, 0, self.a_len(v))
+                if isinstance(v, (View, Ref, Obj)) or not mut:
+                    return v
+                return Ref(b, e[2])
+        if k == "index":
+            c = self.place_ref(e[1], env, frame, mut)
+            if self.is_arr(c):
+                if e[2][0] == "range":
+                    return self.ev_(e, env, frame)
+                idx = self.val(self.ev(e[2], env, frame))
+                i = conc(idx)
+                if i is not None and i < self.a_len(c):
+                    x = self.a_get(c, i)
+                    if isinstance(x, (list, BigArr)):
+                        return View(x, 0, self.a_len(x))
+                    if isinstance(x, (View, Obj)) or not mut:
+                        return x
+                    return Ref(c, i)
+                if mut:
+                    raise Unsupported("mutable reference to an element at a symbolic index")
+                return self.a_get(c, idx)
+        v = self.ev_(e, env, frame)
+        if isinstance(v, (list, BigArr)):
+            return View(v, 0, self.a_len(v))
+        return v
 
     # ------------------------------------------------------------ functions
     def body(self, key, fn, macros):
         if key not in self.bodies:
-            self.bodies[key] = rsfront.parse_body(fn.body, macros)
+            self.bodies[key] = parse_body2(fn.body, macros)
         return self.bodies[key]
+
+    @staticmethod
+    def tystr(toks):
+        return tystr(toks)
+
+    def invoke(self, kind, unit, name, fn, obj, args, outer_scope=None, checked=None):
+        """call `fn` (a method of `obj`, an associated / free / nested function) with already evaluated arguments"""
+        self.tick()
+        params = [p for p in fn.params if p[0] != "self"]
+        if len(params) != len(args):
+            raise Unsupported(f"call of {name} with {len(args)} arguments")
+        bound = [self.bind(a, self.tystr(p[1])) for p, a in zip(params, args)]
+        key = (kind, unit, name)
+        if key in self.abstract:
+            r = self.abstract_call(key, fn, obj, params, bound)
+            if r is not NotImplemented:
+                return r
+        env = [outer_scope if outer_scope is not None else {}, {}]
+        for p, a in zip(params, bound):
+            env[1][p[0]] = a
+        if checked is None:
+            checked = unit not in self.wrapping_units
+        frame = dict(self=obj, unit=unit, ret=(self.tystr(fn.ret) if fn.ret else None), checked=checked)
+        bkey = (unit, name) if kind != "n" else ("nested", id(fn))
+        return self.run_body(self.body(bkey, fn, self.c.macros), env, frame)
 
     def call_method(self, obj, name, args):
         u = self.c.units[obj.unit]
         fn = u["methods"].get(name)
         if fn is None:
             raise Unsupported(f"method {obj.unit}::{name}")
-        env = [{}]
-        pi = 0
-        for p in fn.params:
-            if p[0] == "self":
-                continue
-            env[0][p[0]] = self.bind(args[pi], "".join(t[1] for t in p[1])); pi += 1
-        frame = dict(self=obj, unit=obj.unit, ret=("".join(t[1] for t in fn.ret) if fn.ret else None),
-                     checked=obj.unit not in self.wrapping_units)
-        return self.run_body(self.body((obj.unit, name), fn, self.c.macros), env, frame)
+        return self.invoke("m", obj.unit, name, fn, obj, args)
 
     def call_assoc(self, unit, name, args):
         u = self.c.units[unit]
         fn = u["methods"].get(name)
         if fn is None:
             raise Unsupported(f"function {unit}::{name}")
-        env = [{}]
-        for p, a in zip([p for p in fn.params if p[0] != "self"], args):
-            env[0][p[0]] = self.bind(a, "".join(t[1] for t in p[1]))
-        frame = dict(self=None, unit=unit, ret=("".join(t[1] for t in fn.ret) if fn.ret else None),
-                     checked=unit not in self.wrapping_units)
-        return self.run_body(self.body((unit, name), fn, self.c.macros), env, frame)
+        if any(p[0] == "self" for p in fn.params):
+            if not args or not isinstance(self.val(args[0]), Obj):
+                raise Unsupported(f"{unit}::{name} called without a receiver")
+            return self.invoke("m", unit, name, fn, self.val(args[0]), args[1:])
+        return self.invoke("m", unit, name, fn, None, args)
 
     def call_free(self, name, args, unit):
-        fn = self.c.fns[name]
-        env = [{}]
-        for p, a in zip(fn.params, args):
-            env[0][p[0]] = self.bind(a, "".join(t[1] for t in p[1]))
-        frame = dict(self=None, unit=unit, ret=("".join(t[1] for t in fn.ret) if fn.ret else None))
-        return self.run_body(self.body(("::", name), fn, self.c.macros), env, frame)
+        return self.invoke("f", "::", name, self.c.fns[name], None, args, checked=True)
+
+    def call_nested(self, fn, args, env, frame):
+        """a nested `fn` item: sees the items (consts, fns) of the enclosing blocks, no locals"""
+        outer = {}
+        for sc in env:
+            for k, v in sc.items():
+                if k.startswith("fn:") or k.startswith("const:"):
+                    outer[k] = v
+        return self.invoke("n", frame["unit"], fn.name, fn, None, args, outer_scope=outer, checked=frame.get("checked", True))
 
     def bind(self, v, tys):
+        tys = tys.strip()
+        if tys.startswith("&"):
+            if isinstance(v, (list, BigArr)):
+                return View(v, 0, self.a_len(v))
+            if isinstance(v, Ref):
+                # an integer variable whose type was not known yet gets the type the callee declares for it
+                t = self.ty(tys)
+                x = self.ref_get(v)
+                if t in W and isinstance(x, int) and not isinstance(x, bool):
+                    self.ref_set(v, I(x, t))
+            return v                      # references: Views / Refs / objects are passed on as they are
         t = self.ty(tys)
-        if t in W and not isinstance(v, (list, Obj)):
+        v = self.val(v)
+        if t in W and isinstance(v, (int, I)) and not isinstance(v, bool):
             return self.cast_to(v, t)
+        if self.is_arr(v):
+            v = self.materialise(v)       # an array passed by value: the callee works on its own copy
+            if isinstance(t, tuple) and t[0] == "arr":
+                self.retype(v, t[1])
         return v
 
     def run_body(self, body, env, frame):
         stmts, tail = body
+        rt = frame["ret"]
+        want = self.ty(rt) if rt else None
         try:
-            r = self.block(stmts, env, frame, tail)
+            r = self.block(stmts, env, frame, tail, want if want in W else None)
         except Ret as e:
             r = e.v
-        rt = frame["ret"]
-        if rt and self.ty(rt) in W and isinstance(r, (int, I)):
-            r = self.cast_to(r, self.ty(rt))
+        if want in W and isinstance(self.val(r), (int, I)) and not isinstance(r, bool):
+            r = self.cast_to(r, want)
+        if isinstance(r, (list, BigArr)) and not (rt or "").lstrip().startswith("&"):
+            r = own(r)
+        return r
+
+    # ------------------------------------------------------------ uninterpreted callees
+    def flat_in(self, v, terms, sig):
+        """append the z3 terms of an input value and its signature entries; False if the value cannot be an argument of
+        an uninterpreted function"""
+        v = self.val(v)
+        if isinstance(v, bool):
+            terms.append(z3.BoolVal(v)); sig.append(("bool",)); return True
+        if isinstance(v, int):
+            return False
+        if isinstance(v, I):
+            terms.append(v.e); sig.append(("bv", v.ty, v.v)); return True
+        if z3.is_expr(v) and z3.is_bool(v):
+            terms.append(v); sig.append(("bool",)); return True
+        if isinstance(v, Obj):
+            sig.append(("obj", v.unit, tuple(sorted(v.f))))
+            return all(self.flat_in(v.f[k], terms, sig) for k in sorted(v.f))
+        if isinstance(v, View) and isinstance(v.base, BigArr) and v.off == 0 and v.n == v.base.n:
+            v = v.base
+        if isinstance(v, BigArr):
+            try:
+                terms.append(v.term())
+            except Unsupported:
+                return False
+            sig.append(("arr", v.n, v.ety)); return True
+        if isinstance(v, (list, View)):
+            n = self.a_len(v)
+            if n > 4 * SMALL:
+                return False
+            sig.append(("list", n))
+            return all(self.flat_in(x, terms, sig) for x in self.elems(v))
+        return False
+
+    @staticmethod
+    def sig_covers(verified, sig):
+        if len(verified) != len(sig):
+            return False
+        for a, b in zip(verified, sig):
+            if a[0] != b[0]:
+                return False
+            if a[0] == "bv":
+                if a[1] != b[1] or (a[2] is not None and a[2] != b[2]):
+                    return False
+            elif a != b:
+                return False
+        return True
+
+    def uf(self, name, args, sort):
+        f = z3.Function(name, *([a.sort() for a in args] + [sort]))
+        return f(*args)
+
+    def fresh_out(self, tag, v, args, k):
+        """overwrite the mutable value `v` (View / Ref / Obj) by the outputs tag!k… of the callee; returns the next k"""
+        if isinstance(v, Ref):
+            old = self.val(v)
+            if not isinstance(old, I):
+                raise Unsupported("abstract call: reference to a non-integer")
+            self.ref_set(v, I(self.uf(f"{tag}!{k}", args, z3.BitVecSort(old.w)), old.ty, BIG))
+            return k + 1
+        if isinstance(v, Obj):
+            for fname in sorted(v.f):
+                x = v.f[fname]
+                if isinstance(x, I):
+                    v.f[fname] = I(self.uf(f"{tag}!{k}", args, z3.BitVecSort(x.w)), x.ty, BIG); k += 1
+                elif isinstance(x, (list, BigArr)):
+                    k = self.fresh_out(tag, View(x, 0, self.a_len(x)), args, k)
+                elif isinstance(x, Obj):
+                    k = self.fresh_out(tag, x, args, k)
+                elif isinstance(x, bool) or (z3.is_expr(x) and z3.is_bool(x)):
+                    v.f[fname] = self.uf(f"{tag}!{k}", args, z3.BoolSort()); k += 1
+                else:
+                    raise Unsupported("abstract call: field of unknown kind")
+            return k
+        if isinstance(v, View):
+            if isinstance(v.base, BigArr) and v.off == 0 and v.n == v.base.n:
+                w = v.base.width()
+                v.base.set_term(self.uf(f"{tag}!{k}", args, z3.ArraySort(z3.BitVecSort(64), z3.BitVecSort(w))))
+                return k + 1
+            for i in range(v.n):
+                old = self.a_get(v, i)
+                if not isinstance(old, I):
+                    raise Unsupported("abstract call: array of non-integers")
+                self.a_set(v, i, I(self.uf(f"{tag}!{k}", args, z3.BitVecSort(old.w)), old.ty, BIG)); k += 1
+            return k
+        raise Unsupported("abstract call: output of unknown kind")
+
+    def sym_of_type(self, t, tag, args, k, unit):
+        """a value of declared type `t` made of callee outputs tag!k…; returns (value, next k) or raises Unsupported"""
+        if t in W:
+            return I(self.uf(f"{tag}!{k}", args, z3.BitVecSort(W[t])), t, BIG), k + 1
+        if t == ("named", "bool"):
+            return self.uf(f"{tag}!{k}", args, z3.BoolSort()), k + 1
+        if isinstance(t, tuple) and t[0] == "arr" and t[1] in W:
+            n = self.pyint(self.ev(rsfront.Parser(rsfront.lex(t[2]), self.c.macros).parse_expr_all(), [{}], dict(self=None, unit=unit, ret=None)), "array length")
+            if n <= SMALL:
+                xs = []
+                for _ in range(n):
+                    xs.append(I(self.uf(f"{tag}!{k}", args, z3.BitVecSort(W[t[1]])), t[1], BIG)); k += 1
+                return xs, k
+            b = BigArr(n, t[1], None, self.uf(f"{tag}!{k}", args, z3.ArraySort(z3.BitVecSort(64), z3.BitVecSort(W[t[1]]))))
+            return b, k + 1
+        if isinstance(t, tuple) and t[0] == "named":
+            name = unit if t[1] == "Self" else t[1]
+            if name in self.c.units and self.c.units[name]["fields"]:
+                f = {}
+                for fname, tt in sorted(self.c.units[name]["fields"]):
+                    f[fname], k = self.sym_of_type(self.ty(self.tystr(tt)), tag, args, k, name)
+                return Obj(name, f), k
+        raise Unsupported(f"abstract call: result type {t}")
+
+    def abstract_call(self, key, fn, obj, params, bound):
+        """replace the call by uninterpreted functions of all its inputs (see the module docstring); NotImplemented when this
+        call is not covered by a verified signature"""
+        terms, sig = [], []
+        kind, unit, name = key
+        selfkind = next((p[1] for p in fn.params if p[0] == "self"), None)
+        ok = True
+        if selfkind is not None:
+            ok = obj is not None and self.flat_in(obj, terms, sig)
+        for a in bound:
+            ok = ok and self.flat_in(a, terms, sig)
+        if not ok or not any(self.sig_covers(v, sig) for v in self.abstract[key]):
+            return NotImplemented
+        rt = self.ty(self.tystr(fn.ret)) if fn.ret else None
+        if rt == ("named", "()"):
+            rt = None
+        tag = f"{unit}.{name}"
+        snap = self.snapshot([{"#a": list(bound)}], dict(self=obj))
+        try:
+            k = 0
+            if selfkind == "mut":
+                k = self.fresh_out(tag, obj, terms, k)
+            for p, a in zip(params, bound):
+                pt = self.tystr(p[1]).strip()
+                if pt.startswith("&") and re.match(r"^&\s*('\w+\s*)?mut\b", pt):
+                    k = self.fresh_out(tag, a, terms, k)
+            r = None
+            if rt is not None:
+                r, k = self.sym_of_type(rt, tag, terms, k, unit)
+        except Unsupported:
+            self.restore(snap)
+            return NotImplemented
+        self.may_panic(self.uf(f"{tag}!panic", terms, z3.BoolSort()))
+        self.may_abort(self.uf(f"{tag}!abort", terms, z3.BoolSort()))
+        self.abstracted.add(tag)
         return r
 
     # ------------------------------------------------------------ statements
@@ -230,9 +1019,7 @@ class Interp:
         env.append({})
         try:
             for i, s in enumerate(stmts):
-                self.steps += 1
-                if self.steps > MAX_STEPS:
-                    raise Unsupported("step limit")
+                self.tick()
                 k = s[0]
                 if k == "expr" and s[1][0] == "if":
                     self.if_stmt(s[1], stmts[i + 1:], tail, env, frame)
@@ -242,38 +1029,180 @@ class Interp:
         finally:
             env.pop()
 
+    # state snapshots keep object identities: the CONTENT of every mutable object reachable from the frame is recorded and
+    # written back in place, so Views / Refs (also those held by callers) stay valid across the two runs of a symbolic branch
     def snapshot(self, env, frame):
-        return ([dict((k, (list(v) if isinstance(v, list) else (v.copy() if isinstance(v, Obj) else v))) for k, v in sc.items()) for sc in env],
-                frame["self"].copy() if frame["self"] is not None else None)
+        objs = {}
+        stack = list(env)
+        if frame.get("self") is not None:
+            stack.append(frame["self"])
+        while stack:
+            x = stack.pop()
+            if isinstance(x, View):
+                x = x.base
+            elif isinstance(x, Ref):
+                x = x.cont
+                if isinstance(x, View):
+                    x = x.base
+            if isinstance(x, dict):
+                if id(x) in objs:
+                    continue
+                objs[id(x)] = (x, dict(x))
+                stack.extend(v for k, v in x.items() if not (isinstance(k, str) and k.startswith("fn:")))
+            elif isinstance(x, list):
+                if id(x) in objs:
+                    continue
+                objs[id(x)] = (x, list(x))
+                stack.extend(v for v in x if isinstance(v, (list, Obj, BigArr, View, Ref)))
+            elif isinstance(x, Obj):
+                if id(x) in objs:
+                    continue
+                objs[id(x)] = (x, dict(x.f))
+                stack.extend(x.f.values())
+            elif isinstance(x, BigArr):
+                if id(x) in objs:
+                    continue
+                objs[id(x)] = (x, x.state())
+            elif isinstance(x, tuple) and x and x[0] == "closure":
+                stack.extend(x[3])
+        return objs
 
-    def restore(self, env, frame, snap):
-        e, s = snap
-        for sc, old in zip(env, e):
-            sc.clear(); sc.update(old)
-        if s is not None:
-            frame["self"].f = s.f
+    @staticmethod
+    def put_content(x, content):
+        if isinstance(x, dict):
+            x.clear(); x.update(content)
+        elif isinstance(x, list):
+            x[:] = content
+        elif isinstance(x, Obj):
+            x.f = dict(content)
+        else:
+            x.set_state(content)
 
-    def merge_val(self, c, a, b):
-        if a is b:
+    def restore(self, snap, *_):
+        for x, content in snap.values():
+            self.put_content(x, content)
+
+    def merge_val(self, c, a, b, sa=None, sb=None):
+        """If(c, a, b); the contents of containers are taken from the snapshots sa / sb (object id -> (object, content)) of the
+        two sides where they have an entry, from the live object otherwise"""
+        if a is b and (sa is None or not isinstance(a, (list, Obj, BigArr)) or id(a) not in sa or id(a) not in sb):
             return a
-        if isinstance(a, list) and isinstance(b, list) and len(a) == len(b):
-            return [self.merge_val(c, x, y) for x, y in zip(a, b)]
-        if isinstance(a, Obj) and isinstance(b, Obj):
-            return Obj(a.unit, {k: self.merge_val(c, a.f[k], b.f[k]) for k in a.f})
-        if isinstance(a, int) and isinstance(b, int):
+        if isinstance(a, Ref) or isinstance(b, Ref):
+            if isinstance(a, Ref) and isinstance(b, Ref):
+                if a.cont is b.cont and a.key == b.key:
+                    return a
+                raise Unsupported("merge of different references")
+            a, b = self.val(a), self.val(b)
+        if isinstance(a, View) and isinstance(b, View):
+            if a.base is b.base and a.off == b.off and a.n == b.n:
+                return a
+            raise Unsupported("merge of different slices")
+        def cont(x, snap):
+            if snap is not None and id(x) in snap:
+                return snap[id(x)][1]
+            return x if isinstance(x, list) else (x.f if isinstance(x, Obj) else x.state())
+        if isinstance(a, list) and isinstance(b, list):
+            ca, cb = cont(a, sa), cont(b, sb)
+            if len(ca) == len(cb):
+                return [self.merge_val(c, x, y, sa, sb) for x, y in zip(ca, cb)]
+        if isinstance(a, Obj) and isinstance(b, Obj) and a.unit == b.unit:
+            ca, cb = cont(a, sa), cont(b, sb)
+            return Obj(a.unit, {k: self.merge_val(c, ca[k], cb[k], sa, sb) for k in ca})
+        if isinstance(a, BigArr) and isinstance(b, BigArr) and a.n == b.n:
+            r = BigArr(a.n)
+            r.set_state(self.merge_arr(c, cont(a, sa), cont(b, sb), a.n))
+            return r
+        if isinstance(a, bool) and isinstance(b, bool) and a == b:
+            return a
+        if isinstance(a, int) and isinstance(b, int) and not isinstance(a, bool) and not isinstance(b, bool):
             if a == b:
                 return a
             raise Unsupported("merge of different untyped integers")
         a, b = self.coerce2(a, b)
         if isinstance(a, I) and isinstance(b, I):
-            if a.e.eq(b.e):
+            if a.v is not None and a.v == b.v and a.ty == b.ty:
                 return a
-            return I(z3.If(c, a.e, b.e), a.ty)
-        if isinstance(a, bool) or isinstance(b, bool) or (not isinstance(a, I) and z3.is_bool(a)):
-            return z3.If(c, a, b)
+            if a.w != b.w:
+                raise Unsupported("merge of integers of different width")
+            if a._e is not None and b._e is not None and a._e.eq(b._e):
+                return a
+            ub = max(a.bound(), b.bound())
+            return I(z3.If(c, a.e, b.e), a.ty, min(BIG, a.n + b.n + 1), ub)
+        if isinstance(a, bool) or isinstance(b, bool) or (z3.is_expr(a) and z3.is_bool(a)):
+            if (isinstance(a, bool) or z3.is_expr(a)) and (isinstance(b, bool) or z3.is_expr(b)):
+                return z3.If(c, zbool(a), zbool(b))
         if a is None and b is None:
             return None
+        if isinstance(a, tuple) and isinstance(b, tuple) and a and b and a[0] == b[0] == "result" and len(a) == len(b) == 2:
+            return ("result", self.merge_val(c, a[1], b[1], sa, sb))
+        if isinstance(a, tuple) and isinstance(b, tuple) and a == b:
+            return a
         raise Unsupported("merge of incompatible values")
+
+    def merge_arr(self, c, s1, s2, n):
+        """state of one BigArr from its states after the two branches"""
+        if s1[2] is s2[2] and s1[3] is s2[3] and s1[1] is s2[1] and s1[4].keys() == s2[4].keys() and all(s1[4][i] is s2[4][i] for i in s1[4]):
+            return s1
+        if s1[2] is None and s2[2] is None:
+            # both still index-concrete: merge cell by cell
+            cache = {}
+            for i in set(s1[4]) | set(s2[4]):
+                x, y = s1[4].get(i, s1[1]), s2[4].get(i, s2[1])
+                cache[i] = x if x is y else self.merge_val(c, x, y)
+            fill = s1[1] if s1[1] is s2[1] else self.merge_val(c, s1[1], s2[1])
+            return (s1[0] or s2[0], fill, None, None, cache, set(cache))
+        t = []
+        for s in (s1, s2):
+            b = BigArr(n, s[0] or s1[0] or s2[0])
+            b.set_state(s)
+            t.append((b.term(), b))
+        if t[0][0].eq(t[1][0]):
+            return t[0][1].state()
+        bg = z3.If(c, t[0][0], t[1][0])
+        cache = {}
+        for i in set(t[0][1].cache) & set(t[1][1].cache):
+            x, y = t[0][1].cache[i], t[1][1].cache[i]
+            cache[i] = x if x is y else self.merge_val(c, x, y)
+        return (t[0][1].ety, None, bg, bg, cache, set())
+
+    def merge_state(self, c, s0, s1, s2):
+        """every object that existed before the branch (s0) gets the merge of its contents after the then-run (s1) and after
+        the else-run (s2); computed for all objects first, then written"""
+        out = []
+        for oid, (x, c0) in s0.items():
+            a = s1[oid][1] if oid in s1 else c0
+            b = s2[oid][1] if oid in s2 else c0
+            if isinstance(x, dict):
+                m = {}
+                for k in a:
+                    if k in b:
+                        m[k] = self.merge_val(c, a[k], b[k], s1, s2) if (a[k] is not b[k] or not isinstance(a[k], (list, Obj, BigArr)) or id(a[k]) not in s0) else a[k]
+            elif isinstance(x, list):
+                if len(a) != len(b):
+                    raise Unsupported("merge of lists of different length")
+                m = [self.merge_val(c, p, q, s1, s2) if (p is not q or not isinstance(p, (list, Obj, BigArr)) or id(p) not in s0) else p for p, q in zip(a, b)]
+            elif isinstance(x, Obj):
+                m = {k: (self.merge_val(c, a[k], b[k], s1, s2) if (a[k] is not b[k] or not isinstance(a[k], (list, Obj, BigArr)) or id(a[k]) not in s0) else a[k])
+                     for k in a if k in b}
+            else:
+                m = self.merge_arr(c, a, b, x.n)
+            out.append((x, m))
+        for x, m in out:
+            self.put_content(x, m)
+
+    def run_branch(self, branch, cond, env, frame):
+        """one side of a symbolic `if`: ('go'|'ret', value), with the path condition extended"""
+        self.pc.append(cond)
+        try:
+            if branch is not None:
+                self.block(branch[0], env, frame, branch[1])
+        except Ret as r:
+            return ("ret", r.v)
+        except (Brk, Cont):
+            raise Unsupported("break / continue under a symbolic condition")
+        finally:
+            self.pc.pop()
+        return ("go", None)
 
     def if_stmt(self, e, rest, tail, env, frame):
         """`if` in statement position; a symbolic early return finishes the rest of the enclosing block on the other path"""
@@ -288,31 +1217,22 @@ class Interp:
             return False
         if not self.symbolic:
             raise Unsupported("non-concrete condition in concrete mode")
-        # symbolic condition: run both continuations on copies and merge (early returns included)
-        snap = self.snapshot(env, frame)
-        def run(branch):
-            ret = None
-            self.pc.append(cv if branch is th else z3.Not(cv))
-            try:
-                try:
-                    if branch is not None:
-                        self.block(branch[0], env, frame, branch[1])
-                finally:
-                    self.pc.pop()
-            except Ret as r:
-                return ("ret", r.v), self.snapshot(env, frame)
-            return ("go", None), self.snapshot(env, frame)
-        r1, s1 = run(th)
-        self.restore(env, frame, snap)
-        r2, s2 = run(el)
+        self.note_branch(cv)
+        s0 = self.snapshot(env, frame)
+        r1 = self.run_branch(th, cv, env, frame)
+        s1 = self.snapshot(env, frame)
+        self.restore(s0)
+        r2 = self.run_branch(el, z3.Not(cv), env, frame)
+        s2 = self.snapshot(env, frame)
         if r1[0] == "go" and r2[0] == "go":
-            self.merge_state(cv, env, frame, s1, s2)
+            self.merge_state(cv, s0, s1, s2)
             return False
         # at least one branch returns: finish the rest of the block on the other path(s), then merge the results
-        def finish(r, s):
+        def finish(r, s, cond):
             if r[0] == "ret":
                 return r[1], s
-            self.restore(env, frame, s)
+            self.restore(s0); self.restore(s)
+            self.pc.append(cond)
             try:
                 for i, st in enumerate(rest):
                     if st[0] == "expr" and st[1][0] == "if":
@@ -320,35 +1240,38 @@ class Interp:
                         continue
                     self.stmt(st, env, frame)
                 if tail is None:
-                    raise Unsupported("symbolic early return in a block without a final value")
-                return self.ev(tail, env, frame), self.snapshot(env, frame)
+                    v = None
+                else:
+                    v = self.ev(tail, env, frame)
+                return v, self.snapshot(env, frame)
             except Ret as rr:
                 return rr.v, self.snapshot(env, frame)
-        v1, f1 = finish(r1, s1)
-        v2, f2 = finish(r2, s2)
-        self.merge_state(cv, env, frame, f1, f2)
-        raise Ret(self.merge_val(cv, v1, v2))
-
-    def merge_state(self, c, env, frame, s1, s2):
-        e1, o1 = s1
-        e2, o2 = s2
-        for sc, a, b in zip(env, e1, e2):
-            sc.clear()
-            for k in a:
-                if k in b:
-                    sc[k] = self.merge_val(c, a[k], b[k])
-        if o1 is not None:
-            frame["self"].f = self.merge_val(c, o1, o2).f
+            except (Brk, Cont):
+                raise Unsupported("break / continue under a symbolic condition")
+            finally:
+                self.pc.pop()
+        v1, f1 = finish(r1, s1, cv)
+        v2, f2 = finish(r2, s2, z3.Not(cv))
+        v = self.merge_val(cv, v1, v2, f1, f2)
+        self.merge_state(cv, s0, f1, f2)
+        raise Ret(v)
 
     def stmt(self, s, env, frame):
         k = s[0]
         if k == "let":
             _, pat, mut, ty, init = s
-            v = self.ev(init, env, frame, want=self.ty(ty) if ty else None) if init is not None else None
-            if ty and self.ty(ty) in W and isinstance(v, (int, I)):
-                v = self.cast_to(v, self.ty(ty))
+            t = self.ty(ty) if ty else None
+            v = self.ev(init, env, frame, want=t) if init is not None else None
+            if t in W and isinstance(self.val(v), (int, I)) and not isinstance(v, bool):
+                v = self.cast_to(v, t)
             if pat[0] == "name":
-                env[-1][pat[1]] = list(v) if isinstance(v, list) else v
+                if isinstance(v, (list, BigArr)) and init is not None and init[0] not in ("array", "repeat", "call", "mcall", "struct", "tuple"):
+                    v = own(v)                      # arrays are values: `let b = a;` copies (or moves) the array
+                elif isinstance(v, View) and init is not None and init[0] == "deref":
+                    v = self.materialise(v)
+                if isinstance(t, tuple) and t[0] == "arr" and isinstance(v, (list, BigArr)):
+                    self.retype(v, t[1])
+                env[-1][pat[1]] = v
             else:
                 if not isinstance(v, (list, tuple)) or len(v) != len(pat[1]):
                     raise Unsupported("tuple pattern")
@@ -357,22 +1280,38 @@ class Interp:
             return
         if k == "const":
             v = self.ev(s[3], env, frame, want=self.ty(s[2]))
+            t = self.ty(s[2])
+            if t in W and isinstance(v, (int, I)) and not isinstance(v, bool):
+                v = self.cast_to(v, t)
             env[-1][s[1]] = v
+            env[-1]["const:" + s[1]] = v
             return
         if k == "assign":
             _, place, op, rhs = s
             if op is None:
                 cur = None
                 try:
-                    cur = self.ev(place, env, frame)
+                    if place[0] in ("path", "field", "deref") or (place[0] == "index" and place[2][0] != "range"):
+                        cur = self.val(self.ev_(place, env, frame))
                 except Unsupported:
                     pass
                 want = cur.ty if isinstance(cur, I) else None
                 v = self.ev(rhs, env, frame, want=want)
-                if isinstance(cur, I) and isinstance(v, int):
-                    v = lit(v, cur.ty)
+                if isinstance(cur, I) and isinstance(v, int) and not isinstance(v, bool):
+                    v = I(v, cur.ty)
+                if isinstance(v, (list, BigArr)) and rhs[0] in ("path", "field", "index", "deref", "paren"):
+                    v = own(v)
+                elif isinstance(v, View) and rhs[0] == "deref":
+                    v = self.materialise(v)
             else:
-                v = self.ev(("bin", op, place, rhs), env, frame)
+                if op in ("<<", ">>"):
+                    r = self.ev(rhs, env, frame)
+                else:
+                    r = self.ev_(rhs, env, frame)
+                cur = self.val(self.ev_(place, env, frame))
+                if isinstance(r, tuple) and r and r[0] == "defer":
+                    r = self.undefer(r, cur if isinstance(cur, I) else None)
+                v = self.binop(op, cur, r, None, chk=frame.get("checked", True))
             self.store(place, v, env, frame)
             return
         if k == "expr":
@@ -382,36 +1321,43 @@ class Interp:
                     return
                 if e[1] in ("debug_assert", "assert", "debug_assert_eq", "assert_eq", "debug_assert_ne", "assert_ne"):
                     parts = rsfront.split_top(e[2])
-                    try:
-                        if e[1].endswith("assert"):
-                            c = self.ev(rsfront.Parser(parts[0], self.c.macros).parse_expr_all(), env, frame)
-                        else:
-                            a = self.ev_(rsfront.Parser(parts[0], self.c.macros).parse_expr_all(), env, frame)
-                            b = self.ev_(rsfront.Parser(parts[1], self.c.macros).parse_expr_all(), env, frame, a.ty if isinstance(a, I) else None)
-                            c = self.binop("==" if e[1].endswith("_eq") else "!=", a, b, None)
-                    except Unsupported:
-                        raise
+                    if e[1].endswith("assert"):
+                        c = self.ev(rsfront.Parser(parts[0], self.c.macros).parse_expr_all(), env, frame)
+                    else:
+                        a = self.val(self.ev_(rsfront.Parser(parts[0], self.c.macros).parse_expr_all(), env, frame))
+                        b = self.val(self.ev_(rsfront.Parser(parts[1], self.c.macros).parse_expr_all(), env, frame, a.ty if isinstance(a, I) else None))
+                        c = self.binop("==" if e[1].endswith("_eq") else "!=", a, b, None)
                     cb = conc_bool(c)
-                    self.may_panic((not cb) if cb is not None else z3.Not(c))
+                    bad = (not cb) if cb is not None else z3.Not(c)
+                    if e[1].startswith("debug_"):
+                        self.may_panic(bad)
+                    else:
+                        self.may_abort(bad)
+                    return
+                if e[1] in ("panic", "unreachable", "unimplemented", "todo"):
+                    self.may_abort(True)
                     return
                 raise Unsupported(f"macro {e[1]}!")
             self.ev(e, env, frame)
             return
         if k == "for":
             _, var, it, body = s
-            seq = self.iterable(it, env, frame)
-            for x in seq:
+            seq = self.iter_of(it, env, frame)
+            if seq is None:
+                v = self.ev(it, env, frame)
+                if not self.is_arr(v):
+                    raise Unsupported("for over this iterable")
+                seq = Seq(self.a_len(v), (lambda c: (lambda i: self.a_get(c, i)))(v))
+            for x in seq.gen():
                 env.append({})
-                if var[0] == "name":
-                    env[-1][var[1]] = x
-                else:
-                    for n, y in zip(var[1], x):
-                        env[-1][n] = y
+                self.bind_pattern(var, x, env[-1])
                 try:
                     self.block(body[0], env, frame, body[1])
                 except Brk:
                     env.pop()
                     break
+                except Cont:
+                    pass
                 env.pop()
             return
         if k in ("while", "loop"):
@@ -431,6 +1377,8 @@ class Interp:
                     self.block(b[0], env, frame, b[1])
                 except Brk:
                     break
+                except Cont:
+                    continue
             return
         if k == "fn":
             env[-1]["fn:" + s[1].name] = s[1]
@@ -439,176 +1387,425 @@ class Interp:
             raise Ret(self.ev(s[1], env, frame) if s[1] is not None else None)
         if k == "break":
             raise Brk()
+        if k == "continue":
+            raise Cont()
         raise Unsupported(f"statement {k}")
 
-    def iterable(self, it, env, frame):
-        while it[0] in ("ref", "paren"):
-            it = it[2] if it[0] == "ref" else it[1]
-        if it[0] == "range":
-            lo = self.cast_to(self.ev(it[1], env, frame), "usize") if it[1] is not None else 0
-            hi = self.cast_to(self.ev(it[2], env, frame), "usize")
-            return list(range(lo, hi + (1 if it[3] else 0)))
-        if it[0] == "mcall" and it[2] in ("iter", "iter_mut") :
-            it = it[1]
-        if it[0] == "mcall" and it[2] == "step_by" and it[1][0] in ("paren", "range"):
-            r = it[1][1] if it[1][0] == "paren" else it[1]
-            lo = self.cast_to(self.ev(r[1], env, frame), "usize"); hi = self.cast_to(self.ev(r[2], env, frame), "usize")
-            st = self.cast_to(self.ev(it[3][0], env, frame), "usize")
-            return list(range(lo, hi, st))
-        if it[0] == "mcall" and it[2] == "rev":
-            return list(reversed(self.iterable(it[1], env, frame)))
-        v = self.ev(it, env, frame)
-        if isinstance(v, list):
-            return list(v)
-        raise Unsupported("for over this iterable")
+    def bind_pattern(self, var, x, scope):
+        if var[0] == "name":
+            scope[var[1]] = x
+            return
+        names = var[1]
+        def flat(v):
+            if isinstance(v, list) and len(names) != len(v):
+                out = []
+                for y in v:
+                    out += flat(y) if isinstance(y, list) else [y]
+                return out
+            return list(v) if isinstance(v, list) else [v]
+        xs = flat(x)
+        if len(xs) != len(names):
+            raise Unsupported("loop pattern")
+        for n, y in zip(names, xs):
+            scope[n] = y
+
+    # ------------------------------------------------------------ iterators (lazy, as in Rust)
+    def iter_of(self, e, env, frame):
+        """iterator object for a range / iterator-adaptor chain, None if `e` is not one"""
+        while e[0] == "paren":
+            e = e[1]
+        if e[0] == "range":
+            lo = self.val(self.ev(e[1], env, frame)) if e[1] is not None else 0
+            if e[2] is None:
+                raise Unsupported("unbounded range")
+            hi = self.val(self.ev(e[2], env, frame))
+            ty = lo.ty if isinstance(lo, I) else (hi.ty if isinstance(hi, I) else None)
+            if self.symbolic and isinstance(lo, I) and isinstance(hi, I) and lo.v is None and lo.w == hi.w and not lo.signed and lo.n + hi.n <= 4 * SIMP_LIMIT:
+                d = simp(hi.e - lo.e)
+                if z3.is_bv_value(d) and lo.bound() + d.as_long() + 1 < (1 << lo.w):
+                    # hi = lo + d without wrap-around: d (+1) iterations lo, lo + 1, …
+                    cnt = d.as_long() + (1 if e[3] else 0)
+                    return Seq(cnt, lambda i: mk(lo.e + z3.BitVecVal(i, lo.w), lo.ty, lo, ub=lo.bound() + i) if i else lo)
+            l, h = self.pyint(lo, "range bound"), self.pyint(hi, "range bound") + (1 if e[3] else 0)
+            return Seq(max(0, h - l), (lambda i: I(l + i, ty)) if ty else (lambda i: l + i))
+        if e[0] == "ref":
+            c = self.ev_(e, env, frame)
+            if isinstance(c, View):
+                return self.seq_of(c, e[1])
+            return None
+        if e[0] != "mcall":
+            return None
+        _, recv, name, args = e
+        if name in ("iter", "iter_mut", "into_iter"):
+            inner = self.iter_of(recv, env, frame) if recv[0] in ("paren", "range", "mcall") else None
+            if inner is not None:
+                return inner
+            c = self.ev_(recv, env, frame)
+            if isinstance(c, Obj) and list(c.f) == ["0"]:
+                c = c.f["0"]
+            if not self.is_arr(c):
+                return None
+            return self.seq_of(c, name == "iter_mut")
+        if name in ("chunks_exact", "chunks_exact_mut", "chunks", "chunks_mut", "windows"):
+            c = self.ev_(recv, env, frame)
+            if not self.is_arr(c):
+                return None
+            k = self.pyint(self.ev(args[0], env, frame), "chunk size")
+            n = self.a_len(c)
+            if k == 0:
+                self.may_abort(True)
+                return Seq(0, lambda i: None)
+            if name == "windows":
+                return Seq(max(0, n - k + 1), lambda i: View(c, i, k))
+            if name.startswith("chunks_exact"):
+                return Seq(n // k, lambda i: View(c, i * k, k))
+            return Seq((n + k - 1) // k, lambda i: View(c, i * k, min(k, n - i * k)))
+        if name in ("map", "zip", "enumerate", "rev", "step_by", "take", "skip", "copied", "cloned"):
+            src = self.iter_of(recv, env, frame)
+            if src is None:
+                return None
+            if name in ("copied", "cloned"):
+                return MapIt(src, self.val)
+            if name == "map":
+                f = self.ev(args[0], env, frame)
+                return MapIt(src, lambda x: self.apply_closure(f, [x], frame))
+            if name == "enumerate":
+                return EnumIt(src)
+            if name == "rev":
+                return src.rev()
+            if name == "zip":
+                o = self.iter_of(args[0], env, frame)
+                if o is None:
+                    c = self.ev_(args[0], env, frame)
+                    if not self.is_arr(c):
+                        raise Unsupported("zip with a non-iterator")
+                    o = self.seq_of(c, False)
+                return ZipIt(src, o)
+            k = self.pyint(self.ev(args[0], env, frame), name)
+            if name == "take":
+                return src.take(k)
+            if name == "skip":
+                return src.skip(k)
+            if k == 0:
+                self.may_abort(True); k = 1
+            return src.step(k)
+        return None
+
+    def seq_of(self, c, mut):
+        if mut:
+            def fetch(i):
+                x = self.a_get(c, i)
+                if isinstance(x, (list, BigArr)):
+                    return View(x, 0, self.a_len(x))
+                return x if isinstance(x, (Obj, View)) else Ref(c, i)
+            return Seq(self.a_len(c), fetch)
+        return Seq(self.a_len(c), lambda i: self.a_get(c, i))
 
     # ------------------------------------------------------------ places
     def store(self, place, v, env, frame):
         k = place[0]
-        if k in ("paren", "deref"):
+        if k == "paren":
             return self.store(place[1], v, env, frame)
+        if k == "deref":
+            x = self.ev_(place[1], env, frame)
+            if isinstance(x, Ref):
+                return self.ref_set(x, v)
+            if isinstance(x, View):
+                src = self.val(v)
+                if not self.is_arr(src) or self.a_len(src) != x.n:
+                    raise Unsupported("assignment through a slice reference")
+                xs = self.elems(src)
+                for i, y in enumerate(xs):
+                    self.a_set(x, i, y)
+                return
+            return self.store(place[1], v, env, frame)
+        v = self.val(v) if not isinstance(v, (View, Ref)) else v
         if k == "path" and len(place[1]) == 1:
             n = place[1][0]
             if n == "self":
-                frame["self"].f = v.f
+                frame["self"].f = self.val(v).f
                 return
             sc = self.look(env, n)
             if sc is None:
                 raise Unsupported(f"assignment to unknown {n}")
             old = sc[n]
-            if isinstance(old, I) and isinstance(v, (int, I)):
+            if isinstance(old, Ref) and not isinstance(v, Ref):
+                raise Unsupported("assignment to a reference variable")
+            if isinstance(old, I) and isinstance(v, (int, I)) and not isinstance(v, bool):
                 v = self.cast_to(v, old.ty)
-            sc[n] = list(v) if isinstance(v, list) else v
+            if isinstance(old, (list, BigArr)) and isinstance(v, (list, BigArr)):
+                et = self.ety_of(old)
+                if et:
+                    self.retype(v, et)
+            sc[n] = v
             return
         if k == "field":
-            base = self.ev(place[1], env, frame)
+            base = self.val(self.place_ref(place[1], env, frame))
             if isinstance(base, Obj):
                 old = base.f.get(place[2])
-                if isinstance(old, I) and isinstance(v, (int, I)):
+                if isinstance(old, I) and isinstance(v, (int, I)) and not isinstance(v, bool):
                     v = self.cast_to(v, old.ty)
-                base.f[place[2]] = list(v) if isinstance(v, list) else v
+                if isinstance(old, (list, BigArr)) and isinstance(v, (list, BigArr)):
+                    et = self.ety_of(old)
+                    if et:
+                        self.retype(v, et)
+                base.f[place[2]] = v
                 return
             if place[2] == "0":
+                cur = self.val(self.ev_(place[1], env, frame))
+                if isinstance(cur, I) and isinstance(v, (int, I)):
+                    v = self.cast_to(v, cur.ty)
                 return self.store(place[1], v, env, frame)
             raise Unsupported("field store")
         if k == "index":
-            base = self.ev(place[1], env, frame)
-            i = self.cast_to(self.ev(place[2], env, frame), "usize")
-            if not isinstance(base, list):
+            base = self.place_ref(place[1], env, frame)
+            if isinstance(base, Obj) and list(base.f) == ["0"]:
+                base = base.f["0"]
+            if not self.is_arr(base):
                 raise Unsupported("index store into non-array")
-            if i >= len(base):
-                raise Unsupported("index out of bounds (the real code would panic)")
-            old = base[i]
-            if isinstance(old, I) and isinstance(v, (int, I)):
-                v = self.cast_to(v, old.ty)
-            base[i] = v
+            if place[2][0] == "range":
+                raise Unsupported("assignment to a range of an array")
+            self.a_set(base, self.ev(place[2], env, frame), v)
             return
         raise Unsupported(f"store to {k}")
 
     # ------------------------------------------------------------ expressions
-    def binop(self, op, a, b, want):
+    def overflow(self, op, a, b):
+        """condition (python bool or z3) under which the plain operator traps in a debug build"""
+        sg, w = a.signed, a.w
+        if a.v is not None and b.v is not None:
+            x, y = (sx(a.v, w), sx(b.v, w)) if sg else (a.v, b.v)
+            r = x + y if op == "+" else (x - y if op == "-" else x * y)
+            return not (-(1 << (w - 1)) <= r < (1 << (w - 1))) if sg else not (0 <= r < (1 << w))
+        if not sg:
+            if op == "+" and a.bound() + b.bound() < (1 << w):
+                return False
+            if op == "*" and a.bound() * b.bound() < (1 << w):
+                return False
+        x, y = a.e, b.e
+        if op == "+":
+            okc = z3.And(z3.BVAddNoOverflow(x, y, sg), z3.BVAddNoUnderflow(x, y)) if sg else z3.BVAddNoOverflow(x, y, False)
+        elif op == "-":
+            okc = z3.And(z3.BVSubNoOverflow(x, y), z3.BVSubNoUnderflow(x, y, sg)) if sg else z3.BVSubNoUnderflow(x, y, False)
+        else:
+            okc = z3.And(z3.BVMulNoOverflow(x, y, sg), z3.BVMulNoUnderflow(x, y)) if sg else z3.BVMulNoOverflow(x, y, False)
+        if a.n + b.n <= SIMP_LIMIT:
+            cb = conc_bool(okc)
+            if cb is not None:
+                return not cb
+        return z3.Not(okc)
+
+    def shift(self, op, a, b):
+        """`a << b` / `a >> b`: the amount is taken modulo the width (Rust's release semantics and the semantics of
+        Wrapping); a plain integer shifted by at least its width panics in a debug build"""
+        w = a.w
+        sh = conc(b)
+        if sh is not None:
+            if isinstance(b, I) and b.signed and sh >> (b.w - 1):
+                sh = w          # negative amount
+            if sh >= w:
+                if not is_wr(a.ty):
+                    self.may_panic(True)
+                sh %= w
+            if a.v is not None:
+                if op == "<<":
+                    return I(a.v << sh, a.ty)
+                return I((sx(a.v, w) >> sh) if a.signed else (a.v >> sh), a.ty)
+            se = z3.BitVecVal(sh, w)
+            if op == "<<":
+                return mk(a.e << se, a.ty, a)
+            if a.signed:
+                return mk(a.e >> se, a.ty, a)
+            return mk(z3.LShR(a.e, se), a.ty, a, ub=a.bound() >> sh)
+        if not isinstance(b, I):
+            raise Unsupported("shift amount")
+        be = b.e
+        if not is_wr(a.ty) and b.bound() >= w:
+            self.may_panic(z3.UGE(be, z3.BitVecVal(w, b.w)))
+        se = z3.ZeroExt(w - b.w, be) if b.w < w else (z3.Extract(w - 1, 0, be) if b.w > w else be)
+        se = se & z3.BitVecVal(w - 1, w)
+        if op == "<<":
+            return mk(a.e << se, a.ty, a, b)
+        return mk((a.e >> se) if a.signed else z3.LShR(a.e, se), a.ty, a, b, ub=None if a.signed else a.bound())
+
+    def binop(self, op, a, b, want, chk=False):
+        a, b = self.val(a), self.val(b)
         if op in ("&&", "||"):
             ca, cb = conc_bool(a), conc_bool(b)
             if ca is not None and cb is not None:
                 return (ca and cb) if op == "&&" else (ca or cb)
-            return z3.And(a, b) if op == "&&" else z3.Or(a, b)
+            return z3.And(zbool(a), zbool(b)) if op == "&&" else z3.Or(zbool(a), zbool(b))
+        if isinstance(a, View) or isinstance(b, View) or isinstance(a, BigArr) or isinstance(b, BigArr):
+            if op in ("==", "!=") and self.is_arr(a) and self.is_arr(b):
+                if self.a_len(a) != self.a_len(b):
+                    return op == "!="
+                a, b = self.elems(a), self.elems(b)
+            else:
+                raise Unsupported("array operands")
         if isinstance(a, list) or isinstance(b, list):
             if op in ("==", "!=") and isinstance(a, list) and isinstance(b, list) and len(a) == len(b):
                 parts = [self.binop("==", x, y, None) for x, y in zip(a, b)]
-                r = z3.And(*[p if not isinstance(p, bool) else z3.BoolVal(p) for p in parts]) if parts else True
-                r = simp(r) if not isinstance(r, bool) else r
-                return r if op == "==" else (z3.Not(r) if not isinstance(r, bool) else not r)
+                if all(isinstance(p, bool) for p in parts):
+                    r = all(parts)
+                    return r if op == "==" else not r
+                r = simp(z3.And(*[zbool(p) for p in parts]))
+                return r if op == "==" else simp(z3.Not(r))
             raise Unsupported("array operands")
         if op in ("<<", ">>"):
-            if isinstance(a, int) and want in W:
-                a = lit(a, want)
-            if isinstance(a, int):
+            if isinstance(a, int) and not isinstance(a, bool) and want in W:
+                a = I(a, want)
+            if isinstance(a, int) and not isinstance(a, bool):
                 sh = conc(b)
                 if sh is None:
                     raise Unsupported("shift of an untyped literal by a symbolic amount")
                 return ("defer", a, op, sh)
-            sh = conc(b)
-            if sh is not None:
-                if sh >= a.w:
-                    raise Unsupported("shift by at least the width")
-                se = z3.BitVecVal(sh, a.w)
-            else:
-                bb = b
-                se = z3.ZeroExt(a.w - bb.w, bb.e) if bb.w < a.w else z3.Extract(a.w - 1, 0, bb.e)
-            if op == "<<":
-                return I(simp(a.e << se), a.ty)
-            return I(simp(a.e >> se) if a.signed else simp(z3.LShR(a.e, se)), a.ty)
+            if not isinstance(a, I):
+                raise Unsupported("shift of a non-integer")
+            return self.shift(op, a, b)
         a, b = self.undefer(a, b), self.undefer(b, a)
         a, b = self.coerce2(a, b)
-        if isinstance(a, int) and isinstance(b, int):
+        if isinstance(a, int) and isinstance(b, int) and not isinstance(a, bool) and not isinstance(b, bool):
             if want in W:
-                a, b = lit(a, want), lit(b, want)
+                a, b = I(a, want), I(b, want)
             else:
                 import operator
-                f = {"+": operator.add, "-": operator.sub, "*": operator.mul, "/": operator.floordiv, "%": operator.mod,
+                if op in ("/", "%") and b == 0:
+                    self.may_abort(True)
+                    return 0
+                f = {"+": operator.add, "-": operator.sub, "*": operator.mul, "/": lambda x, y: abs(x) // abs(y) * (1 if (x < 0) == (y < 0) else -1),
+                     "%": lambda x, y: abs(x) % abs(y) * (1 if x >= 0 else -1),
                      "^": operator.xor, "|": operator.or_, "&": operator.and_, "==": operator.eq, "!=": operator.ne,
                      "<": operator.lt, ">": operator.gt, "<=": operator.le, ">=": operator.ge}[op]
-                return f(a, b)
+                r = f(a, b)
+                if op in ("+", "-", "*") and not (0 <= r < (1 << 31)):
+                    # the literal's type is not known here: whether this wraps / traps depends on what Rust infers
+                    raise Unsupported("arithmetic on untyped integers whose result depends on the inferred type")
+                return r
         if not isinstance(a, I) or not isinstance(b, I):
             if op in ("==", "!="):
-                r = (a == b)
-                if isinstance(r, bool):
-                    return r if op == "==" else not r
-                return simp(r) if op == "==" else simp(z3.Not(r))
+                if isinstance(a, bool) and isinstance(b, bool):
+                    return (a == b) if op == "==" else (a != b)
+                if (isinstance(a, bool) or z3.is_expr(a)) and (isinstance(b, bool) or z3.is_expr(b)):
+                    r = zbool(a) == zbool(b)
+                    return simp(r) if op == "==" else simp(z3.Not(r))
+            if op in ("&", "|", "^") and (isinstance(a, bool) or (z3.is_expr(a) and z3.is_bool(a))) and (isinstance(b, bool) or (z3.is_expr(b) and z3.is_bool(b))):
+                if isinstance(a, bool) and isinstance(b, bool):
+                    return {"&": a and b, "|": a or b, "^": a != b}[op]
+                return simp({"&": z3.And, "|": z3.Or, "^": z3.Xor}[op](zbool(a), zbool(b)))
             raise Unsupported(f"operands of {op}")
         if a.w != b.w:
             raise Unsupported(f"width mismatch in {op}")
+        if base_ty(a.ty) != base_ty(b.ty) and a.signed != b.signed:
+            raise Unsupported(f"signedness mismatch in {op}")
+        w, sg = a.w, a.signed
+        rty = a.ty if is_wr(a.ty) or not is_wr(b.ty) else b.ty
+        cmp = op in ("==", "!=", "<", ">", "<=", ">=")
+        if chk and op in ("+", "-", "*") and not is_wr(rty):
+            self.may_panic(self.overflow(op, a, b))
+        if op in ("/", "%"):
+            if b.v is not None:
+                if b.v == 0:
+                    self.may_abort(True)
+                    return I(0, rty)
+            else:
+                self.may_abort(b.e == z3.BitVecVal(0, w))
+            if sg and not is_wr(rty):
+                # MIN / -1 overflows (panics in every build)
+                if a.v is not None and b.v is not None:
+                    if a.v == 1 << (w - 1) and b.v == (1 << w) - 1:
+                        self.may_abort(True)
+                else:
+                    self.may_abort(z3.And(a.e == z3.BitVecVal(1 << (w - 1), w), b.e == z3.BitVecVal((1 << w) - 1, w)))
+        if a.v is not None and b.v is not None:
+            x, y = (sx(a.v, w), sx(b.v, w)) if sg else (a.v, b.v)
+            if cmp:
+                return {"==": x == y, "!=": x != y, "<": x < y, ">": x > y, "<=": x <= y, ">=": x >= y}[op]
+            if op == "/":
+                r = abs(x) // abs(y) * (1 if (x < 0) == (y < 0) else -1)
+            elif op == "%":
+                r = abs(x) % abs(y) * (1 if x >= 0 else -1)
+            else:
+                r = {"^": lambda: x ^ y, "|": lambda: x | y, "&": lambda: x & y, "+": lambda: x + y, "-": lambda: x - y, "*": lambda: x * y}[op]()
+            return I(r, rty)
         x, y = a.e, b.e
-        if op in ("==", "!=", "<", ">", "<=", ">="):
+        if cmp:
             if op == "==":
                 r = x == y
             elif op == "!=":
                 r = x != y
-            elif a.signed:
+            elif sg:
                 r = {"<": x < y, ">": x > y, "<=": x <= y, ">=": x >= y}[op]
             else:
+                if op == "<" and a.bound() < b.v if b.v is not None else False:
+                    return True
                 r = {"<": z3.ULT(x, y), ">": z3.UGT(x, y), "<=": z3.ULE(x, y), ">=": z3.UGE(x, y)}[op]
-            return simp(r)
+            return simp(r) if a.n + b.n <= SIMP_LIMIT else r
+        ub = None
+        if not sg:
+            if op == "&":
+                ub = min(a.bound(), b.bound())
+            elif op == "%" and b.v is not None:
+                ub = b.v - 1
+            elif op == "/" :
+                ub = a.bound()
+            elif op in ("|", "^"):
+                ub = (1 << max(a.bound().bit_length(), b.bound().bit_length())) - 1
+            elif op == "+" and a.bound() + b.bound() < (1 << w):
+                ub = a.bound() + b.bound()
+            elif op == "*" and a.bound() * b.bound() < (1 << w):
+                ub = a.bound() * b.bound()
         r = {"^": lambda: x ^ y, "|": lambda: x | y, "&": lambda: x & y, "+": lambda: x + y, "-": lambda: x - y,
              "*": lambda: x * y,
-             "/": lambda: (x / y) if a.signed else z3.UDiv(x, y),
-             "%": lambda: z3.SRem(x, y) if a.signed else z3.URem(x, y)}[op]()
-        return I(simp(r), a.ty)
+             "/": lambda: (x / y) if sg else z3.UDiv(x, y),
+             "%": lambda: z3.SRem(x, y) if sg else z3.URem(x, y)}[op]()
+        return mk(r, rty, a, b, ub=ub)
 
     def undefer(self, v, other):
         if isinstance(v, tuple) and v and v[0] == "defer":
             _, l, op, sh = v
             ty = other.ty if isinstance(other, I) else None
             if ty is None:
-                return (l << sh) if op == "<<" else (l >> sh)
-            return self.binop(op, lit(l, ty), sh, None)
+                r = (l << sh) if op == "<<" else (l >> sh)
+                return r
+            return self.binop(op, I(l, ty), sh, None)
         return v
 
     def ev(self, e, env, frame, want=None):
         v = self.ev_(e, env, frame, want)
-        if isinstance(v, tuple) and v and v[0] == "defer" and want in W:
-            v = self.binop(v[2], lit(v[1], want), v[3], None)
+        if isinstance(v, tuple) and v and v[0] == "defer":
+            v = self.binop(v[2], I(v[1], want), v[3], None) if want in W else self.undefer(v, None)
         if want in W and isinstance(v, int) and not isinstance(v, bool):
-            v = lit(v, want)
+            v = I(v, want)
+        return v
+
+    def const_value(self, n, frame):
+        tt, et = self.c.consts[n]
+        ty = self.ty(self.tystr(tt))
+        v = self.ev(rsfront.Parser(et, self.c.macros).parse_expr_all(), [{}], dict(self=None, unit=frame.get("unit"), ret=None), want=ty if ty in W else (ty if isinstance(ty, tuple) and ty[0] == "arr" else None))
+        if ty in W and isinstance(v, (int, I)) and not isinstance(v, bool):
+            v = self.cast_to(v, ty)
+        if isinstance(ty, tuple) and ty[0] == "arr" and isinstance(v, (list, BigArr)):
+            self.retype(v, ty[1])
         return v
 
     def ev_(self, e, env, frame, want=None):
-        self.steps += 1
-        if self.steps > MAX_STEPS:
-            raise Unsupported("step limit")
+        self.tick()
         k = e[0]
         if k == "lit":
             if e[2] in W:
-                return lit(e[1], e[2])
+                return I(e[1], e[2])
             return e[1]
         if k == "bool":
             return e[1]
         if k == "paren":
             return self.ev(e[1], env, frame, want)
-        if k == "ref" :
-            return self.ev(e[2], env, frame, want)
+        if k == "ref":
+            return self.place_ref(e[2], env, frame, e[1])
         if k == "deref":
-            return self.ev(e[1], env, frame, want)
+            v = self.ev(e[1], env, frame, want)
+            if isinstance(v, Ref):
+                return self.ref_get(v)
+            return v
         if k == "path":
             segs = e[1]
             if len(segs) == 1:
@@ -618,87 +1815,126 @@ class Interp:
                 sc = self.look(env, n)
                 if sc is not None:
                     return sc[n]
+                sc = self.look(env, "const:" + n)
+                if sc is not None:
+                    return sc["const:" + n]
                 if n in self.c.consts:
-                    tt, et = self.c.consts[n]
-                    ty = self.ty("".join(t[1] for t in tt))
-                    v = self.ev(rsfront.Parser(et, self.c.macros).parse_expr_all(), [{}], frame, want=ty if ty in W else None)
-                    return v
+                    return self.const_value(n, frame)
+                if n in ("w", "Wrapping"):
+                    return ("builtin", "w")          # the tuple-struct constructor used as a function value: `.map(w)`
                 raise Unsupported(f"unknown name {n}")
-            if segs[0] in ("u8", "u16", "u32", "u64", "i32", "i64", "usize") and segs[1] in ("MAX", "MIN", "BITS"):
+            if segs[0] in _BASE and segs[1] in ("MAX", "MIN", "BITS"):
                 ty = segs[0]
-                w = W.get(ty, 64)
+                w = W[ty]
                 sg = ty.startswith("i")
                 val = {"MAX": ((1 << (w - 1)) - 1) if sg else (1 << w) - 1, "MIN": -(1 << (w - 1)) if sg else 0, "BITS": w}[segs[1]]
                 if segs[1] == "BITS":
-                    return lit(val, "u32")
-                return lit(val, ty) if ty in W else val
+                    return I(val, "u32")
+                return I(val, ty)
             if segs[-1] in self.c.consts:
-                return self.ev(("path", [segs[-1]]), env, frame, want)
+                return self.ev_(("path", [segs[-1]]), env, frame, want)
+            if segs[0] == "Self" and len(segs) == 2:
+                raise Unsupported(f"associated item Self::{segs[1]}")
             raise Unsupported(f"path {'::'.join(segs)}")
         if k == "field":
-            b = self.ev(e[1], env, frame)
+            b = self.val(self.ev(e[1], env, frame))
             if isinstance(b, Obj):
                 if e[2] not in b.f:
                     raise Unsupported(f"field {e[2]}")
                 return b.f[e[2]]
             if e[2] == "0":
+                if isinstance(b, I) and is_wr(b.ty):
+                    return I(b.v if b.v is not None else b._e, base_ty(b.ty), b.n, b.ub)
                 return b
+            if isinstance(b, list) and e[2].isdigit() and int(e[2]) < len(b):
+                return b[int(e[2])]
             raise Unsupported(f"field .{e[2]}")
         if k == "index":
-            b = self.ev(e[1], env, frame)
-            if e[2][0] == "range":
-                lo = self.cast_to(self.ev(e[2][1], env, frame), "usize") if e[2][1] is not None else 0
-                hi = self.cast_to(self.ev(e[2][2], env, frame), "usize") if e[2][2] is not None else len(b)
-                return b[lo:hi + (1 if e[2][3] else 0)]
-            i = self.cast_to(self.ev(e[2], env, frame), "usize")
-            if not isinstance(b, list):
+            b = self.val(self.ev(e[1], env, frame))
+            if isinstance(b, Obj) and list(b.f) == ["0"]:
+                b = b.f["0"]
+            if not self.is_arr(b):
                 raise Unsupported("index into non-array")
-            if i >= len(b):
-                raise Unsupported("index out of bounds (the real code would panic)")
-            return b[i]
+            if e[2][0] == "range":
+                n = self.a_len(b)
+                lo = self.pyint(self.ev(e[2][1], env, frame), "slice bound") if e[2][1] is not None else 0
+                hi = (self.pyint(self.ev(e[2][2], env, frame), "slice bound") + (1 if e[2][3] else 0)) if e[2][2] is not None else n
+                if lo > hi or hi > n:
+                    self.may_abort(True)
+                    lo, hi = 0, 0
+                return View(b, lo, hi - lo)
+            return self.a_get(b, self.ev(e[2], env, frame))
         if k == "cast":
             v = self.ev(e[1], env, frame)
             v = self.undefer(v, None) if isinstance(v, tuple) else v
-            return self.cast_to(v, self.ty(e[2]))
+            t = self.ty(e[2])
+            if t == ("named", "bool"):
+                return v
+            if t not in W:
+                raise Unsupported(f"cast to {e[2]}")
+            return self.cast_to(v, t)
         if k == "un":
-            v = self.ev(e[2], env, frame, want)
+            v = self.val(self.ev(e[2], env, frame, want))
             if e[1] == "!":
                 if isinstance(v, bool):
                     return not v
+                if isinstance(v, int):
+                    if want in W:
+                        return I(~v, want)
+                    raise Unsupported("bitwise not of an untyped integer")
                 if isinstance(v, I):
-                    return I(simp(~v.e), v.ty)
+                    if v.v is not None:
+                        return I(~v.v, v.ty)
+                    return mk(~v.e, v.ty, v)
                 return simp(z3.Not(v))
             if isinstance(v, int):
                 return -v
-            return I(simp(-v.e), v.ty)
+            if not isinstance(v, I):
+                raise Unsupported("negation of a non-integer")
+            if v.signed and not is_wr(v.ty) and frame.get("checked", True):
+                m = 1 << (v.w - 1)
+                self.may_panic((v.v == m) if v.v is not None else (v.e == z3.BitVecVal(m, v.w)))
+            if v.v is not None:
+                return I(-v.v, v.ty)
+            return mk(-v.e, v.ty, v)
         if k == "bin":
             op = e[1]
             cmp = op in ("==", "!=", "<", ">", "<=", ">=")
             if op == "&&":
-                a = self.ev(e[2], env, frame)
-                if conc_bool(a) is False:
+                a = self.val(self.ev(e[2], env, frame))
+                ca = conc_bool(a)
+                if ca is False:
                     return False
+                if ca is None and self.symbolic:
+                    self.note_branch(zbool(a))
+                    if self.writes(e[3]):
+                        raise Unsupported("`&&` with a symbolic left operand and a right operand with side effects")
+                    self.pc.append(zbool(a))    # the right operand is evaluated (and can trap) only on this path
+                    try:
+                        return self.binop(op, a, self.ev(e[3], env, frame), None)
+                    finally:
+                        self.pc.pop()
                 return self.binop(op, a, self.ev(e[3], env, frame), None)
             if op == "||":
-                a = self.ev(e[2], env, frame)
-                if conc_bool(a) is True:
+                a = self.val(self.ev(e[2], env, frame))
+                ca = conc_bool(a)
+                if ca is True:
                     return True
+                if ca is None and self.symbolic:
+                    self.note_branch(zbool(a))
+                    if self.writes(e[3]):
+                        raise Unsupported("`||` with a symbolic left operand and a right operand with side effects")
+                    self.pc.append(z3.Not(zbool(a)))    # the right operand is evaluated (and can trap) only on this path
+                    try:
+                        return self.binop(op, a, self.ev(e[3], env, frame), None)
+                    finally:
+                        self.pc.pop()
                 return self.binop(op, a, self.ev(e[3], env, frame), None)
-            a = self.ev_(e[2], env, frame, None if cmp else want)
-            b = self.ev_(e[3], env, frame, (a.ty if isinstance(a, I) else (None if cmp else want)) if op not in ("<<", ">>") else None)
-            if op in ("+", "-", "*") and frame.get("checked", True):
-                a2, b2 = self.coerce2(self.undefer(a, b), self.undefer(b, a))
-                if isinstance(a2, I) and isinstance(b2, I) and a2.w == b2.w:
-                    sg = a2.signed
-                    if op == "+":
-                        okc = z3.And(z3.BVAddNoOverflow(a2.e, b2.e, sg), z3.BVAddNoUnderflow(a2.e, b2.e)) if sg else z3.BVAddNoOverflow(a2.e, b2.e, False)
-                    elif op == "-":
-                        okc = z3.And(z3.BVSubNoOverflow(a2.e, b2.e), z3.BVSubNoUnderflow(a2.e, b2.e, sg)) if sg else z3.BVSubNoUnderflow(a2.e, b2.e, False)
-                    else:
-                        okc = z3.And(z3.BVMulNoOverflow(a2.e, b2.e, sg), z3.BVMulNoUnderflow(a2.e, b2.e)) if sg else z3.BVMulNoOverflow(a2.e, b2.e, False)
-                    cb = conc_bool(z3.simplify(okc))
-                    self.may_panic((not cb) if cb is not None else z3.Not(okc))
-            return self.binop(op, a, b, None if cmp else want)
+            a = self.val(self.ev_(e[2], env, frame, None if cmp else want))
+            b = self.val(self.ev_(e[3], env, frame, (a.ty if isinstance(a, I) else (None if cmp else want)) if op not in ("<<", ">>") else None))
+            if cmp and isinstance(a, int) and not isinstance(a, bool) and isinstance(b, I) is False and isinstance(b, tuple):
+                b = self.undefer(b, None)
+            return self.binop(op, a, b, None if cmp else want, chk=frame.get("checked", True))
         if k == "mcall":
             return self.mcall(e, env, frame, want)
         if k == "call":
@@ -713,156 +1949,520 @@ class Interp:
                 return br(th) if cb else (br(el) if el is not None else None)
             if not self.symbolic:
                 raise Unsupported("non-concrete condition")
-            snap = self.snapshot(env, frame)
-            self.pc.append(cv)
-            try:
-                v1 = br(th)
-            finally:
-                self.pc.pop()
+            self.note_branch(cv)
+            s0 = self.snapshot(env, frame)
+            def side(b, cond):
+                self.pc.append(cond)
+                try:
+                    return br(b) if b is not None else None
+                except (Ret, Brk, Cont):
+                    raise Unsupported("return / break inside a symbolic `if` expression")
+                finally:
+                    self.pc.pop()
+            v1 = side(th, cv)
             s1 = self.snapshot(env, frame)
-            self.restore(env, frame, snap)
-            self.pc.append(z3.Not(cv))
-            try:
-                v2 = br(el) if el is not None else None
-            finally:
-                self.pc.pop()
+            self.restore(s0)
+            v2 = side(el, z3.Not(cv))
             s2 = self.snapshot(env, frame)
-            self.merge_state(cv, env, frame, s1, s2)
-            return self.merge_val(cv, v1, v2)
+            v = self.merge_val(cv, v1, v2, s1, s2)
+            self.merge_state(cv, s0, s1, s2)
+            return v
         if k == "block":
             return self.block(e[1], env, frame, e[2], want)
         if k == "array":
             ety = want[1] if isinstance(want, tuple) and want[0] == "arr" else None
-            return [self.ev(x, env, frame, ety) for x in e[1]]
+            return self.new_array([own(self.val(self.ev(x, env, frame, ety))) for x in e[1]])
         if k == "repeat":
             ety = want[1] if isinstance(want, tuple) and want[0] == "arr" else None
-            n = self.cast_to(self.ev(e[2], env, frame), "usize")
-            x = self.ev(e[1], env, frame, ety)
-            return [x for _ in range(n)]
+            n = self.pyint(self.ev(e[2], env, frame), "array length")
+            x = self.val(self.ev(e[1], env, frame, ety))
+            if n <= SMALL:
+                return [own(x) for _ in range(n)]
+            if isinstance(x, (list, BigArr, Obj)):
+                raise Unsupported("large array of arrays")
+            return BigArr(n, x.ty if isinstance(x, I) else (ety if ety in W else None), x)
         if k == "tuple":
             return [self.ev(x, env, frame) for x in e[1]]
         if k == "struct":
             name = e[1] if e[1] != "Self" else frame["unit"]
             if name not in self.c.units:
                 raise Unsupported(f"struct {name}")
-            decl = {n: self.ty("".join(t[1] for t in tt)) for n, tt in self.c.units[name]["fields"]}
+            decl = {n: self.ty(self.tystr(tt)) for n, tt in self.c.units[name]["fields"]}
             f = {}
             for n, x in e[2]:
-                v = self.ev(x, env, frame, want=decl.get(n))
-                if decl.get(n) in W and isinstance(v, (int, I)):
+                v = self.val(self.ev(x, env, frame, want=decl.get(n)))
+                if decl.get(n) in W and isinstance(v, (int, I)) and not isinstance(v, bool):
                     v = self.cast_to(v, decl[n])
-                if isinstance(decl.get(n), tuple) and decl[n][0] == "arr" and isinstance(v, list) and decl[n][1] in W:
-                    v = [self.cast_to(q, decl[n][1]) if isinstance(q, (int, I)) else q for q in v]
-                f[n] = list(v) if isinstance(v, list) else v
+                if self.is_arr(v):
+                    v = self.materialise(v)
+                    if isinstance(decl.get(n), tuple) and decl[n][0] == "arr":
+                        self.retype(v, decl[n][1])
+                f[n] = v
+            if set(f) != set(decl):
+                raise Unsupported(f"struct literal of {name} does not set exactly its fields")
             return Obj(name, f)
         if k == "closure":
             return ("closure", e[1], e[2], env)
+        if k == "try":
+            v = self.ev(e[1], env, frame)
+            if isinstance(v, tuple) and v and v[0] == "result":
+                return v[1]        # the failing path was split off where the fallible request was made (src_fill)
+            raise Unsupported("`?` on this expression")
+        if k == "unsafe":
+            return self.unsafe_block(e[1], env, frame)
         if k == "macro":
+            if e[1] in ("panic", "unreachable", "unimplemented", "todo"):
+                self.may_abort(True)
+                return None
             raise Unsupported(f"macro {e[1]}!")
         if k == "range":
             raise Unsupported("range value")
+        if k == "str":
+            return ("str", e[1])
         raise Unsupported(f"expression {k}")
 
+    def effects(self, e):
+        """can evaluating `e` trap or write? (conservative, syntactic)"""
+        k = e[0]
+        if k in ("lit", "bool", "path", "str"):
+            return False
+        if k in ("paren", "deref"):
+            return self.effects(e[1])
+        if k in ("ref", "un"):
+            return self.effects(e[2])
+        if k == "field":
+            return self.effects(e[1])
+        if k == "cast":
+            return self.effects(e[1])
+        if k == "bin":
+            if e[1] in ("+", "-", "*", "/", "%", "<<", ">>"):
+                return True
+            return self.effects(e[2]) or self.effects(e[3])
+        if k == "mcall" and e[2] in ("wrapping_add", "wrapping_sub", "wrapping_mul", "rotate_left", "rotate_right", "len", "is_empty"):
+            return self.effects(e[1]) or any(self.effects(a) for a in e[3])
+        return True
+
+    def writes(self, e):
+        """can evaluating `e` change state? (conservative, syntactic: any call that is not a known pure method)"""
+        k = e[0]
+        if k in ("lit", "bool", "path", "str"):
+            return False
+        if k in ("paren", "deref"):
+            return self.writes(e[1])
+        if k in ("ref", "un"):
+            return self.writes(e[2])
+        if k in ("field", "cast"):
+            return self.writes(e[1])
+        if k == "index":
+            return self.writes(e[1]) or (e[2][0] != "range" and self.writes(e[2]))
+        if k == "bin":
+            return self.writes(e[2]) or self.writes(e[3])
+        if k == "mcall" and e[2] in ("wrapping_add", "wrapping_sub", "wrapping_mul", "rotate_left", "rotate_right", "len", "is_empty",
+                                     "abs", "wrapping_abs", "unsigned_abs", "min", "max", "leading_zeros", "trailing_zeros", "count_ones"):
+            return self.writes(e[1]) or any(self.writes(a) for a in e[3])
+        return True
+
     def apply_closure(self, c, args, frame):
+        if isinstance(c, tuple) and c and c[0] == "builtin" and c[1] == "w" and len(args) == 1:
+            v = self.val(args[0])
+            if isinstance(v, I):
+                return I(v.v if v.v is not None else v._e, "w:" + base_ty(v.ty), v.n, v.ub)
+            return v
+        if not (isinstance(c, tuple) and c and c[0] == "closure"):
+            raise Unsupported("call of a non-closure")
         _, params, body, cenv = c
+        if any(p in ("(", ")") for p in params):
+            params = [p for p in params if p not in ("(", ")")]
+            flat = []
+            for a in args:
+                flat += list(a) if isinstance(a, list) else [a]
+            if len(flat) != len(params):
+                nested = []
+                for a in flat:
+                    nested += list(a) if isinstance(a, list) else [a]
+                flat = nested
+            args = flat
+        if len(params) != len(args):
+            raise Unsupported("closure arity")
         env = list(cenv) + [dict(zip(params, args))]
         return self.ev(body, env, frame)
 
+    # ------------------------------------------------------------ byte sources (`rng: &mut impl RngCore`)
+    def src_take(self, src, nbytes):
+        """the next nbytes of the scripted source as u8 values; all requests are recorded (they are observable)"""
+        src.requests.append(nbytes)
+        out = []
+        for i in range(nbytes):
+            if src.data is not None:
+                out.append(I(src.data(src.pos + i), "u8"))
+            else:
+                out.append(mk(z3.Select(src.arr, z3.BitVecVal(src.pos + i, 64)), "u8"))
+        src.pos += nbytes
+        return out
+
+    def src_fill(self, src, dest, fallible):
+        n = self.a_len(dest)
+        bs = self.src_take(src, n)
+        if fallible and src.data is None:
+            # the request may fail: the function then returns the error at once; the rest runs on the success path only
+            f = z3.Bool(f"src_fail_{len(src.requests)}")
+            src.fails.append(f)
+            self.pc.append(z3.Not(f))
+        for i, b in enumerate(bs):
+            self.a_set(dest, i, b)
+
+    def unsafe_block(self, toks, env, frame):
+        """the one accepted idiom: a local word array is filled with bytes of the source through a raw byte view
+        (little-endian host): `let ptr = ARR.as_mut_ptr() as *mut u8; let slice = slice::from_raw_parts_mut(ptr, LEN);
+        RNG.fill_bytes(slice);` (or `RNG.try_fill_bytes(slice)?;`)"""
+        txt = " ".join(t[1] for t in toks)
+        m = re.match(r"^let (\w+) = (\w+) \. as_mut_ptr \( \) as \* mut u8 ; let (\w+) = (?:core :: |std :: )?slice :: from_raw_parts_mut \( (\w+) , (.+?) \) ; "
+                     r"(\w+) \. (fill_bytes|try_fill_bytes) \( (\w+) \) (\? )?;$", txt)
+        if not m or m.group(1) != m.group(4) or m.group(3) != m.group(8) or (m.group(7) == "try_fill_bytes") != bool(m.group(9)):
+            raise Unsupported("unsafe block")
+        arr = self.ev_(("path", [m.group(2)]), env, frame)
+        src = self.val(self.ev_(("path", [m.group(6)]), env, frame))
+        if not isinstance(arr, (list, BigArr)) or not isinstance(src, Src):
+            raise Unsupported("unsafe block: operands")
+        ln = self.pyint(self.ev(rsfront.Parser(rsfront.lex(m.group(5).replace(" ", "")), self.c.macros).parse_expr_all(), env, frame), "length")
+        ety = self.ety_of(arr)
+        if ety is None and isinstance(arr, BigArr):
+            ety = arr.width() and arr.ety
+        if ety is None or ln != self.a_len(arr) * (W[ety] // 8):
+            raise Unsupported("unsafe block: the byte view does not cover exactly the array")
+        k = W[ety] // 8
+        tmp = [None] * ln
+        self.src_fill(src, tmp, m.group(7) == "try_fill_bytes")
+        for i in range(self.a_len(arr)):
+            bs = tmp[k * i:k * i + k]
+            self.a_set(arr, i, mk(z3.Concat(*[b.e for b in reversed(bs)]), ety, *bs))
+        return None
+
     def mcall(self, e, env, frame, want):
         _, recv, name, args = e
-        # iterator chains
-        if name in ("all", "any", "fold") and recv[0] == "mcall" and recv[2] in ("iter", "into_iter"):
-            base = self.ev(recv[1], env, frame)
-            if isinstance(base, Obj) and list(base.f) == ["0"]:
-                base = base.f["0"]
-            if not isinstance(base, list):
-                raise Unsupported("iterator over non-array")
-            if name == "fold":
-                acc = self.ev(args[0], env, frame)
-                c = self.ev(args[1], env, frame)
-                for x in base:
-                    acc = self.apply_closure(c, [acc, x], frame)
-                return acc
-            c = self.ev(args[0], env, frame)
-            parts = [self.apply_closure(c, [x], frame) for x in base]
-            cs = [conc_bool(p) for p in parts]
-            if all(x is not None for x in cs):
-                return all(cs) if name == "all" else any(cs)
-            ps = [p if not isinstance(p, bool) else z3.BoolVal(p) for p in parts]
-            return simp(z3.And(*ps) if name == "all" else z3.Or(*ps))
+        # iterator consumers
+        if name in ("all", "any", "fold", "sum", "for_each", "count", "last", "position", "max", "min") and recv[0] in ("mcall", "paren", "range"):
+            it = self.iter_of(recv, env, frame)
+            if it is not None:
+                return self.consume(it, name, args, env, frame, want)
         r = self.ev_(recv, env, frame, want if name.startswith("wrapping") or name.startswith("rotate") else None)
-        if isinstance(r, Obj):
-            if name in self.c.units[r.unit]["methods"]:
-                return self.call_method(r, name, [self.ev(a, env, frame) for a in args])
+        if not isinstance(r, (View, Ref)) or name not in ("copy_from_slice",):
+            pass
+        rv = self.val(r)
+        if isinstance(rv, Obj):
+            if name in self.c.units[rv.unit]["methods"]:
+                return self.call_method(rv, name, [self.ev_arg(a, env, frame) for a in args])
             if name == "clone":
-                return r.copy()
-            if name == "fill_bytes":
-                dst = self.ev(args[0], env, frame)
-                out = fill_bytes_via_next(self, r, len(dst)) if "fill_bytes" not in self.c.units[r.unit]["methods"] else None
-                raise Unsupported("fill_bytes on object")
-            raise Unsupported(f"method {r.unit}::{name}")
+                return rv.copy()
+            if list(rv.f) == ["0"] and self.is_arr(rv.f["0"]):
+                rv = rv.f["0"]
+            elif list(rv.f) == ["inner"] and self.is_arr(rv.f["inner"]) and name in ("iter", "iter_mut", "as_ref", "as_mut", "len"):
+                rv = rv.f["inner"]
+            else:
+                raise Unsupported(f"method {rv.unit}::{name}")
+        if isinstance(rv, Src):
+            if name in ("fill_bytes", "try_fill_bytes"):
+                dest = self.ev_arg(args[0], env, frame)
+                if not self.is_arr(dest):
+                    raise Unsupported("fill_bytes into a non-array")
+                et = self.ety_of(dest)
+                if et is not None and W[et] != 8:
+                    raise Unsupported("fill_bytes into a non-byte buffer")
+                self.src_fill(rv, dest, name == "try_fill_bytes")
+                return ("result", None) if name == "try_fill_bytes" else None
+            raise Unsupported(f"source method {name}")
+        if self.is_arr(rv):
+            return self.arr_method(rv, name, args, env, frame, want)
+        r = rv
+        if isinstance(r, tuple) and r and r[0] == "defer":
+            r = self.undefer(r, None)
         if name in ("wrapping_add", "wrapping_sub", "wrapping_mul"):
-            b = self.ev(args[0], env, frame, r.ty if isinstance(r, I) else want)
-            return self.binop({"wrapping_add": "+", "wrapping_sub": "-", "wrapping_mul": "*"}[name], r, b, want)
+            b = self.val(self.ev(args[0], env, frame, r.ty if isinstance(r, I) else want))
+            op = {"wrapping_add": "+", "wrapping_sub": "-", "wrapping_mul": "*"}[name]
+            if isinstance(r, int) and isinstance(b, int) and want not in W:
+                raise Unsupported("wrapping arithmetic on untyped integers")
+            return self.binop(op, r, b, want)
+        if isinstance(r, int) and not isinstance(r, bool) and want in W:
+            r = I(r, want)
         if name in ("rotate_left", "rotate_right"):
-            if isinstance(r, int):
+            if not isinstance(r, I):
                 raise Unsupported("rotate of untyped literal")
-            n = conc(self.ev(args[0], env, frame))
+            n = conc(self.val(self.ev(args[0], env, frame)))
             if n is None:
                 raise Unsupported("rotate by symbolic amount")
-            f = z3.RotateLeft if name == "rotate_left" else z3.RotateRight
-            return I(simp(f(r.e, n % r.w)), r.ty)
-        if name == "to_le_bytes":
-            return [I(simp(z3.Extract(8 * i + 7, 8 * i, r.e)), "u8") for i in range(r.w // 8)]
-        if name in ("as_mut", "as_ref", "clone", "iter", "to_vec", "into"):
+            n %= r.w
+            if name == "rotate_right":
+                n = (r.w - n) % r.w
+            if r.v is not None:
+                return I(((r.v << n) | (r.v >> (r.w - n))) if n else r.v, r.ty)
+            return mk(z3.RotateLeft(r.e, n), r.ty, r)
+        if name in ("saturating_add", "saturating_sub", "checked_add", "checked_sub", "overflowing_add", "overflowing_sub") and isinstance(r, I):
+            b = self.val(self.ev(args[0], env, frame, r.ty))
+            a, b = self.coerce2(r, b)
+            if not isinstance(b, I) or a.w != b.w:
+                raise Unsupported(name)
+            op = "+" if name.endswith("add") else "-"
+            ov = self.overflow(op, a, b)
+            res = self.binop(op, a, b, None)
+            if name.startswith("saturating"):
+                w, sg = a.w, a.signed
+                if sg:
+                    raise Unsupported("signed saturating arithmetic")
+                sat = I(((1 << w) - 1) if op == "+" else 0, a.ty)
+                if isinstance(ov, bool):
+                    return sat if ov else res
+                self.note_branch(ov)
+                return self.merge_val(ov, sat, res)
+            if name.startswith("overflowing"):
+                return [res, ov]
+            raise Unsupported(name)
+        if name == "to_le_bytes" and isinstance(r, I):
+            if r.v is not None:
+                return [I((r.v >> (8 * i)) & 255, "u8") for i in range(r.w // 8)]
+            return [mk(z3.Extract(8 * i + 7, 8 * i, r.e), "u8", r) for i in range(r.w // 8)]
+        if name == "to_be_bytes" and isinstance(r, I):
+            return list(reversed(self.mcall(("mcall", recv, "to_le_bytes", []), env, frame, None)))
+        if name in ("to_le", "from_le") and isinstance(r, I):
+            return r                                   # little-endian host (an assumption of the whole framework)
+        if name in ("as_mut", "as_ref", "iter", "into", "borrow", "borrow_mut"):
             return r
-        if name == "len":
-            return len(r)
-        if name == "wrapping_neg":
-            return I(simp(-r.e), r.ty)
-        if name == "abs" or name == "wrapping_abs":
-            return I(simp(z3.If(r.e < 0, -r.e, r.e)), r.ty)
-        if name == "is_empty":
-            return len(r) == 0
+        if name in ("clone", "to_owned"):
+            return own(r)
+        if name == "wrapping_neg" and isinstance(r, I):
+            return I(-r.v, r.ty) if r.v is not None else mk(-r.e, r.ty, r)
+        if name in ("abs", "wrapping_abs", "unsigned_abs") and isinstance(r, I) and r.signed:
+            ty = r.ty if name != "unsigned_abs" else "u" + base_ty(r.ty)[1:]
+            m = 1 << (r.w - 1)
+            if name == "abs":
+                self.may_panic((r.v == m) if r.v is not None else (r.e == z3.BitVecVal(m, r.w)))
+            if r.v is not None:
+                return I(abs(sx(r.v, r.w)), ty)
+            return mk(z3.If(r.e < 0, -r.e, r.e), ty, r)
+        if name in ("min", "max") and isinstance(r, I):
+            b = self.val(self.ev(args[0], env, frame, r.ty))
+            a, b = self.coerce2(r, b)
+            c = self.binop("<=" if name == "min" else ">=", a, b, None)
+            if isinstance(c, bool):
+                return a if c else b
+            self.note_branch(c)
+            return self.merge_val(c, a, b)
+        if name in ("leading_zeros", "trailing_zeros", "count_ones") and isinstance(r, I) and r.v is not None:
+            x, w = r.v, r.w
+            if name == "count_ones":
+                return I(bin(x).count("1"), "u32")
+            if name == "leading_zeros":
+                return I(w - x.bit_length(), "u32")
+            return I(w if x == 0 else (x & -x).bit_length() - 1, "u32")
+        if name in ("wrapping_shl", "wrapping_shr") and isinstance(r, I):
+            b = self.val(self.ev(args[0], env, frame, "u32"))
+            rr = I(r.v if r.v is not None else r._e, "w:" + base_ty(r.ty), r.n, r.ub)
+            x = self.shift("<<" if name.endswith("shl") else ">>", rr, b)
+            return I(x.v if x.v is not None else x._e, r.ty, x.n, x.ub)
+        if name == "pow" and isinstance(r, I) and r.v is not None:
+            b = self.pyint(self.ev(args[0], env, frame), "exponent")
+            x = (sx(r.v, r.w) if r.signed else r.v) ** b
+            if not is_wr(r.ty) and not (0 <= x < (1 << r.w)) and not r.signed:
+                self.may_panic(True)
+            return I(x, r.ty)
         raise Unsupported(f"method .{name}()")
+
+    def ev_arg(self, a, env, frame):
+        """argument of a call: references are passed as references, arrays as themselves (bind copies by-value ones)"""
+        if a[0] == "ref":
+            return self.place_ref(a[2], env, frame, a[1])
+        return self.ev(a, env, frame)
+
+    def consume(self, it, name, args, env, frame, want):
+        if name == "fold":
+            acc = self.ev(args[0], env, frame, want)
+            c = self.ev(args[1], env, frame)
+            for x in it.gen():
+                acc = self.apply_closure(c, [acc, x], frame)
+            return acc
+        if name == "for_each":
+            c = self.ev(args[0], env, frame)
+            for x in it.gen():
+                self.apply_closure(c, [x], frame)
+            return None
+        if name == "count":
+            for x in it.gen():
+                pass
+            return I(it.n, "usize")
+        if name == "sum":
+            acc = None
+            for x in it.gen():
+                x = self.val(x)
+                acc = x if acc is None else self.binop("+", acc, x, want, chk=frame.get("checked", True))
+            return acc if acc is not None else (I(0, want) if want in W else 0)
+        if name in ("all", "any"):
+            c = self.ev(args[0], env, frame)
+            parts = []
+            for x in it.gen():
+                p = self.apply_closure(c, [x], frame)
+                cb = conc_bool(p)
+                if cb is not None and all(isinstance(q, bool) for q in parts):
+                    if (name == "all" and not cb) or (name == "any" and cb):
+                        return cb                    # short-circuit, as the real iterator does
+                    parts.append(cb)
+                else:
+                    if self.symbolic and self.effects(c[2]):
+                        raise Unsupported("short-circuiting iterator test over symbolic data with a closure that can trap")
+                    parts.append(p)
+            if all(isinstance(p, bool) for p in parts):
+                return all(parts) if name == "all" else any(parts)
+            ps = [zbool(p) for p in parts]
+            return simp(z3.And(*ps) if name == "all" else z3.Or(*ps))
+        raise Unsupported(f"iterator method .{name}()")
+
+    def arr_method(self, r, name, args, env, frame, want):
+        n = self.a_len(r)
+        if name == "len":
+            return I(n, "usize")
+        if name == "is_empty":
+            return n == 0
+        if name in ("as_mut", "as_ref", "iter", "iter_mut", "into", "as_slice", "as_mut_slice", "borrow", "borrow_mut", "into_iter"):
+            return r
+        if name in ("clone", "to_vec", "to_owned"):
+            return self.materialise(r)
+        if name in ("split_at", "split_at_mut"):
+            k = self.pyint(self.ev(args[0], env, frame), "split point")
+            if k > n:
+                self.may_abort(True); k = n
+            return [View(r, 0, k), View(r, k, n - k)]
+        if name in ("copy_from_slice", "clone_from_slice"):
+            src = self.val(self.ev_arg(args[0], env, frame))
+            if not self.is_arr(src):
+                raise Unsupported("copy_from_slice from a non-array")
+            if self.a_len(src) != n:
+                self.may_abort(True)
+                return None
+            xs = self.elems(src)
+            for i, x in enumerate(xs):
+                self.a_set(r, i, x)
+            return None
+        if name == "copy_within":
+            rg = args[0]
+            while rg[0] == "paren":
+                rg = rg[1]
+            if rg[0] != "range":
+                raise Unsupported("copy_within: range")
+            lo = self.pyint(self.ev(rg[1], env, frame), "range bound") if rg[1] is not None else 0
+            hi = (self.pyint(self.ev(rg[2], env, frame), "range bound") + (1 if rg[3] else 0)) if rg[2] is not None else n
+            d = self.pyint(self.ev(args[1], env, frame), "destination")
+            if lo > hi or hi > n or d + (hi - lo) > n:
+                self.may_abort(True)
+                return None
+            xs = [self.a_get(r, i) for i in range(lo, hi)]
+            for i, x in enumerate(xs):
+                self.a_set(r, d + i, x)
+            return None
+        if name == "fill":
+            x = self.val(self.ev(args[0], env, frame, self.ety_of(r)))
+            for i in range(n):
+                self.a_set(r, i, x)
+            return None
+        if name == "swap":
+            i, j = self.ev(args[0], env, frame), self.ev(args[1], env, frame)
+            x, y = self.a_get(r, i), self.a_get(r, j)
+            self.a_set(r, i, y); self.a_set(r, j, x)
+            return None
+        if name == "map" and isinstance(r, (list, BigArr)):
+            f = self.ev(args[0], env, frame)
+            return self.new_array([self.val(self.apply_closure(f, [x], frame)) for x in self.elems(r)])
+        if name in ("rotate_left", "rotate_right"):
+            k = self.pyint(self.ev(args[0], env, frame), "rotation")
+            if k > n:
+                self.may_abort(True)
+                return None
+            xs = self.elems(r)
+            xs = xs[k:] + xs[:k] if name == "rotate_left" else xs[n - k:] + xs[:n - k]
+            for i, x in enumerate(xs):
+                self.a_set(r, i, x)
+            return None
+        if name == "reverse":
+            xs = list(reversed(self.elems(r)))
+            for i, x in enumerate(xs):
+                self.a_set(r, i, x)
+            return None
+        if name in ("first", "last") :
+            raise Unsupported(f"Option-valued .{name}()")
+        if name == "contains":
+            x = self.val(self.ev_arg(args[0], env, frame))
+            ps = [self.binop("==", y, x, None) for y in self.elems(r)]
+            if all(isinstance(p, bool) for p in ps):
+                return any(ps)
+            return simp(z3.Or(*[zbool(p) for p in ps]))
+        raise Unsupported(f"method .{name}() on an array")
 
     def call(self, e, env, frame, want):
         f, args = e[1], e[2]
         if f[0] != "path":
+            fv = self.ev_(f, env, frame)
+            if isinstance(fv, tuple) and fv and fv[0] == "closure":
+                return self.apply_closure(fv, [self.ev_arg(a, env, frame) for a in args], frame)
             raise Unsupported("call of non-path")
         segs = f[1]
         name, full = segs[-1], "::".join(segs)
-        if name in ("w", "Wrapping") and len(args) == 1:
-            return self.ev(args[0], env, frame, want)
-        if full in ("u32::from_le_bytes", "u64::from_le_bytes"):
-            bs = self.ev(args[0], env, frame)
-            n = 4 if segs[0] == "u32" else 8
-            bs = [self.cast_to(b, "u8") for b in bs]
-            return I(simp(z3.Concat(*[b.e for b in reversed(bs[:n])])), segs[0])
-        if len(segs) == 2 and segs[0] in W and name == "from":
-            return self.cast_to(self.ev(args[0], env, frame), segs[0])
+        if name in ("w", "Wrapping") and len(args) == 1 and self.look(env, "fn:" + name) is None and name not in self.c.fns:
+            bw = base_ty(want) if want in W else None
+            v = self.val(self.ev(args[0], env, frame, bw))
+            if isinstance(v, I):
+                return I(v.v if v.v is not None else v._e, "w:" + base_ty(v.ty), v.n, v.ub)
+            return v
+        if name in ("Ok", "Some") and len(segs) == 1 and len(args) == 1:
+            if name == "Some":
+                raise Unsupported("Option value")
+            return ("result", self.ev(args[0], env, frame))
+        if full in ("u32::from_le_bytes", "u64::from_le_bytes", "u16::from_le_bytes", "u128::from_le_bytes",
+                    "u32::from_be_bytes", "u64::from_be_bytes"):
+            bs = self.val(self.ev(args[0], env, frame))
+            n = W[segs[0]] // 8
+            if not self.is_arr(bs) or self.a_len(bs) != n:
+                raise Unsupported(f"{full}: argument is not an array of {n} bytes")
+            bs = [self.cast_to(b, "u8") for b in self.elems(bs)]
+            if "be" in name:
+                bs = list(reversed(bs))
+            if all(b.v is not None for b in bs):
+                return I(sum(b.v << (8 * i) for i, b in enumerate(bs)), segs[0])
+            return mk(z3.Concat(*[b.e for b in reversed(bs)]), segs[0], *bs)
+        if len(segs) == 2 and segs[0] in _BASE and name == "from":
+            v = self.val(self.ev(args[0], env, frame))
+            if isinstance(v, I) and (v.w > W[segs[0]] or (v.signed and not segs[0].startswith("i"))):
+                raise Unsupported("lossy From conversion")
+            return self.cast_to(v, segs[0])
         if name in ("read_u32_into", "read_u64_into"):
-            src = self.ev(args[0], env, frame)
-            dst = self.ev(args[1], env, frame)
+            src = self.val(self.ev_arg(args[0], env, frame))
+            dst = self.val(self.ev_arg(args[1], env, frame))
             n = 4 if name == "read_u32_into" else 8
             ty = "u32" if n == 4 else "u64"
-            src = [self.cast_to(b, "u8") for b in src]
-            if len(src) < n * len(dst):
-                raise Unsupported("read_into: source too short (the real code would panic)")
-            for i in range(len(dst)):
-                dst[i] = I(simp(z3.Concat(*[b.e for b in reversed(src[n * i:n * i + n])])), ty)
+            if not self.is_arr(src) or not self.is_arr(dst):
+                raise Unsupported("read_into: operands")
+            nd = self.a_len(dst)
+            if self.a_len(src) < n * nd:
+                self.may_abort(True)
+                return None
+            for i in range(nd):
+                bs = [self.cast_to(self.a_get(src, n * i + j), "u8") for j in range(n)]
+                if all(b.v is not None for b in bs):
+                    x = I(sum(b.v << (8 * j) for j, b in enumerate(bs)), ty)
+                else:
+                    x = mk(z3.Concat(*[b.e for b in reversed(bs)]), ty, *bs)
+                self.a_set(dst, i, x)
             return None
         if name == "next_u64_via_u32":
-            o = self.ev(args[0], env, frame)
+            o = self.val(self.ev(args[0], env, frame))
             x = self.call_method(o, "next_u32", [])
             y = self.call_method(o, "next_u32", [])
-            return I(simp((z3.ZeroExt(32, y.e) << 32) | z3.ZeroExt(32, x.e)), "u64")
+            return mk((z3.ZeroExt(32, y.e) << 32) | z3.ZeroExt(32, x.e), "u64", x, y)
         if name == "fill_bytes_via_next":
-            o = self.ev(args[0], env, frame)
-            dst = self.ev(args[1], env, frame)
-            out = fill_bytes_via_next(self, o, len(dst))
-            dst[:] = out
+            o = self.val(self.ev(args[0], env, frame))
+            dst = self.ev_arg(args[1], env, frame)
+            out = fill_bytes_via_next(self, o, self.a_len(dst))
+            for i, x in enumerate(out):
+                self.a_set(dst, i, x)
             return None
+        if name in ("size_of",) :
+            raise Unsupported("size_of")
         unit = frame["unit"]
         tgt = None
         if len(segs) >= 2 and segs[-2] in ("Self",):
@@ -870,12 +2470,12 @@ class Interp:
         elif len(segs) >= 2 and segs[-2] in self.c.units:
             tgt = segs[-2]
         if tgt is not None:
-            avals = [self.ev(a, env, frame) for a in args]
+            avals = [self.ev_arg(a, env, frame) for a in args]
             if name in self.c.units[tgt]["methods"]:
                 return self.call_assoc(tgt, name, avals)
             if name == "from_rng":      # rand_core default: seed = default(); rng.fill_bytes(seed); from_seed(seed)
                 n = self.seed_len(tgt)
-                rng = avals[0]
+                rng = self.val(avals[0])
                 seed = fill_bytes_obj(self, rng, n)
                 return self.call_assoc(tgt, "from_seed", [seed])
             if name == "seed_from_u64" :
@@ -883,25 +2483,36 @@ class Interp:
             raise Unsupported(f"function {tgt}::{name}")
         if len(segs) == 1 and self.look(env, "fn:" + name) is not None:
             fn = self.look(env, "fn:" + name)["fn:" + name]
-            avals = [self.ev(a, env, frame) for a in args]
-            env2 = [{}]
-            for p, a in zip(fn.params, avals):
-                env2[0][p[0]] = self.bind(a, "".join(t[1] for t in p[1]))
-            fr2 = dict(self=None, unit=unit, ret=("".join(t[1] for t in fn.ret) if fn.ret else None), checked=frame.get("checked", True))
-            return self.run_body(self.body(("nested", id(fn)), fn, self.c.macros), env2, fr2)
+            return self.call_nested(fn, [self.ev_arg(a, env, frame) for a in args], env, frame)
+        if len(segs) == 1 and self.look(env, name) is not None:
+            fv = self.look(env, name)[name]
+            if isinstance(fv, tuple) and fv and fv[0] == "closure":
+                return self.apply_closure(fv, [self.ev_arg(a, env, frame) for a in args], frame)
         if name in self.c.fns and (len(segs) == 1 or segs[0] in ("crate", "self", "super", "common")):
-            return self.call_free(name, [self.ev(a, env, frame) for a in args], unit)
+            return self.call_free(name, [self.ev_arg(a, env, frame) for a in args], unit)
         raise Unsupported(f"call of {full}")
 
     def seed_len(self, unit):
         return self.c.seed_lens[unit]
 
+class Src:
+    """a scripted byte source (`rng: &mut impl RngCore`): the bytes are one symbolic array shared by the two versions"""
+    def __init__(self, name="src", data=None):
+        self.arr = z3.Array(name, z3.BitVecSort(64), z3.BitVecSort(8))
+        self.data = data                      # concrete runs: position -> byte
+        self.pos, self.requests, self.fails = 0, [], []
+
 def fill_bytes_obj(it, obj, n):
     if "fill_bytes" in it.c.units[obj.unit]["methods"]:
-        buf = [lit(0, "u8") for _ in range(n)]
+        buf = [I(0, "u8") for _ in range(n)]
         it.call_method(obj, "fill_bytes", [buf])
         return buf
     return fill_bytes_via_next(it, obj, n)
+
+def _bytes_of(w, k):
+    if w.v is not None:
+        return [I((w.v >> (8 * i)) & 255, "u8") for i in range(k)]
+    return [mk(z3.Extract(8 * i + 7, 8 * i, w.e), "u8", w) for i in range(k)]
 
 def fill_bytes_via_next(it, obj, n):
     """rand_core::impls::fill_bytes_via_next"""
@@ -909,12 +2520,84 @@ def fill_bytes_via_next(it, obj, n):
     left = n
     while left >= 8:
         w = it.call_method(obj, "next_u64", [])
-        out += [I(simp(z3.Extract(8 * i + 7, 8 * i, w.e)), "u8") for i in range(8)]
+        out += _bytes_of(w, 8)
         left -= 8
     if left > 4:
         w = it.call_method(obj, "next_u64", [])
-        out += [I(simp(z3.Extract(8 * i + 7, 8 * i, w.e)), "u8") for i in range(left)]
+        out += _bytes_of(w, left)
     elif left > 0:
         w = it.call_method(obj, "next_u32", [])
-        out += [I(simp(z3.Extract(8 * i + 7, 8 * i, w.e)), "u8") for i in range(left)]
+        out += _bytes_of(w, left)
     return out
+
+class Seq:
+    """iterator over n lazily fetched items"""
+    def __init__(self, n, fetch):
+        self.n, self.fetch = n, fetch
+    def gen(self):
+        for i in range(self.n):
+            yield self.fetch(i)
+    def rev(self):
+        n, f = self.n, self.fetch
+        return Seq(n, lambda i: f(n - 1 - i))
+    def take(self, k):
+        return Seq(min(self.n, k), self.fetch)
+    def skip(self, k):
+        f = self.fetch
+        return Seq(max(0, self.n - k), lambda i: f(i + k))
+    def step(self, k):
+        f = self.fetch
+        return Seq((self.n + k - 1) // k, lambda i: f(i * k))
+
+class MapIt:
+    def __init__(self, src, f):
+        self.src, self.f, self.n = src, f, src.n
+    def gen(self):
+        for x in self.src.gen():
+            yield self.f(x)
+    def rev(self):
+        return MapIt(self.src.rev(), self.f)
+    def take(self, k):
+        return MapIt(self.src.take(k), self.f)
+    def skip(self, k):
+        raise Unsupported("skip after map")          # Rust would still run the closure on the skipped items
+    def step(self, k):
+        raise Unsupported("step_by after map")
+
+class EnumIt:
+    def __init__(self, src):
+        self.src, self.n = src, src.n
+    def gen(self):
+        for i, x in enumerate(self.src.gen()):
+            yield [I(i, "usize"), x]
+    def rev(self):
+        raise Unsupported("rev after enumerate")
+    def take(self, k):
+        return EnumIt(self.src.take(k))
+    def skip(self, k):
+        raise Unsupported("skip after enumerate")
+    def step(self, k):
+        raise Unsupported("step_by after enumerate")
+
+class ZipIt:
+    def __init__(self, a, b):
+        if isinstance(a, MapIt) and a.n > b.n:
+            raise Unsupported("zip: the mapped first iterator is longer (its closure would run once more)")
+        self.a, self.b, self.n = a, b, min(a.n, b.n)
+    def gen(self):
+        # Rust's Zip asks the first iterator, then the second; lengths are static here, so nothing is fetched beyond the end
+        ga, gb = self.a.take(self.n).gen() if hasattr(self.a, "take") else self.a.gen(), self.b.gen()
+        for _ in range(self.n):
+            x = next(ga)
+            y = next(gb)
+            yield [x, y]
+    def rev(self):
+        if self.a.n != self.b.n:
+            raise Unsupported("rev of a zip of different lengths")
+        return ZipIt(self.a.rev(), self.b.rev())
+    def take(self, k):
+        return ZipIt(self.a.take(k), self.b.take(k))
+    def skip(self, k):
+        return ZipIt(self.a.skip(k), self.b.skip(k))
+    def step(self, k):
+        return ZipIt(self.a.step(k), self.b.step(k))
